@@ -12,1904 +12,1851 @@ Definition show_fres (r : fres) : string :=
   end.
 Definition check (rs : list rune) : string := digest (show_fres (format_res rs)).
 Definition full (rs : list rune) : string := show_fres (format_res rs).
-Eval vm_compute in ("<<<M439>>>" ++ check (runes_of_ascii "/// triple
-packet
-string_{
-char[] calculatedFrom
-    ,string	rootA	`two words` ,  @tag(
-    10 // " ++ [128512]%N ++ runes_of_ascii " emoji
-)@lengthOf( packetx ) char[] falsey
-    ,// @lengthOf(
-int8 MetaDataX @calculatedFrom(""CRC32"" )
-    `two words`
-, zchar[
-    7
-]float
-    ,  uint32 calculatedFrom,
-    matchKey {
-zchar[ 10 ]u
-@calculatedFrom( ""a\\""
-// `tick` ""quote"" 'q'
-// " ++ [27880; 37322]%N ++ runes_of_ascii "
-)
-,
-// " ++ [27880; 37322]%N ++ runes_of_ascii "
-// packet A { u8 x, }
-} , @calculatedFrom( ""1"" )int16 rootA , float64 uint8x
-    // " ++ [27880; 37322]%N ++ runes_of_ascii "
-    ,
-    // " ++ [128512]%N ++ runes_of_ascii " emoji
-    } packet u8x{@calculatedFrom( ""CRC32"" ) repeat //x
-u64 u8x // packet A { u8 x, }
-`a\` , } // trailing space 
-packet
-    Packet	{ @calculatedFrom(
-""packet""
-) repeat
-len i64_
-,
-@lengthOf(trueish
-)
-@lengthOf(u )
-    // a // b
-    @lengthOf( A
-) char[] zchar`say ""hi""`
-// " ++ [128512]%N ++ runes_of_ascii " emoji
-//
-,
-    @calculatedFrom(""{,}"" )	chars@calculatedFrom( ""{,}""	)
-    ,repeat
-//	t
-// @lengthOf(
-pack lengthOf , // `tick` ""quote"" 'q'
-}
-//x
-// " ++ [27880; 37322]%N ++ runes_of_ascii "
-packet
-i64_{ calculatedFrom
-{ stringy {
-zchar[
-    // c
-    1  ] tag , match
-    float as _x  { ""it's"" : Packet ,
-[	0123456789 ,// c
-4294967296
-,""1"", 00, 42 ] :Foo , [""a\\""  , 42 //x
-, 255 ,""`tick`"" , 3 , """ ++ [128512]%N ++ runes_of_ascii """ ] :pack , // @lengthOf(
-4294967296
-    :
-    pack,
-[ 0123456789 , """ ++ [28040; 24687]%N ++ runes_of_ascii """ ,
-""{,}"",
-/// triple
-// " ++ [27880; 37322]%N ++ runes_of_ascii "
-4294967296 ,""packet"", ""x y"" , // packet A { u8 x, }
-""x y""	]//	t
-: uint8x  ,
-    } , } ,
-} //
-,@tag(00)
-BodyLength ,@calculatedFrom(""a	b"" )match msg_type
-as Foo { [ ""\n""
-, 42,
-42 ]
-: Pad , } , u64
-packetx `" ++ [233]%N ++ runes_of_ascii "`
-// packet A { u8 x, }
-//x
-,repeat
-i64 tag
-,
-//x
-// @lengthOf(
-@tag( 65535 // `tick` ""quote"" 'q'
-)
-    @lengthOf(
-    // `tick` ""quote"" 'q'
-    Pad
-    ) match matchKey as f32a
-{3 :  BodyLength ,[//	t
-""" ++ [128512]%N ++ runes_of_ascii """ , ""packet""  ,
-    65535 ,255 , ""a	b""
-, 0 , //	t
-007 //	t
-] : /// triple
-u8x ,4294967296
-//x
-// a // b
-: As 007 :i64_
-    ""it's"":lengthOf, ""\" ++ [233]%N ++ runes_of_ascii """ :	u8x , },  rootA
-    // c
-    { f32 Packet@lengthOf(A ), i32 repeatCount
-@calculatedFrom( ""x y""	)
-//x
-// c
-, repeatCount
-    @calculatedFrom(
-""" ++ [233]%N ++ runes_of_ascii "t" ++ [233]%N ++ runes_of_ascii """) // trailing space 
-`" ++ [28040; 24687; 31867; 22411]%N ++ runes_of_ascii "`,
-    char[] Packet, }, @lengthOf( body
-)
-@tag(65535 )	@calculatedFrom(""\" ++ [233]%N ++ runes_of_ascii """ )metadata @lengthOf( uint8x
-    ) ,
-    }packet i64_ { match o as
-    asx { ""`tick`""
-    : charz
-    }
-//	t
-// trailing space 
-,
-    }
-")).
-Eval vm_compute in ("<<<M4522>>>" ++ check (runes_of_ascii "// " ++ [27880; 37322]%N ++ runes_of_ascii "
-options {
-    zchar = ""x y"";
-    options1 = u16;
-}
+Eval vm_compute in ("<<<M4486>>>" ++ check (runes_of_ascii "
+root packet MetaDataX
 
-packet Pad {
-    Z9_ @calculatedFrom("""") `
-        `,
-    @tag(42)
-    @tag(00)
-    @lengthOf(zchar)
-    match _x as metadata {
-        007 : As,
-        ""`tick`"" : lengthOf,
-        255 : lengthOf,
-        ""a	b"" : Packet,
-        255 : a1,
-        // c
-        [
-            00, 0, 10, 10, 7,
-            ""a\\"", ""it's""
-        ] : Foo,
-    },
-    match Header as o {
-        [255] : zchar,
-        0123456789 : leftPad,
-        [007, 3] : leftPad,
-        // c
-        0 : packetx,
-    },
-}
+    { int32
+Logon
+	,	}packet
 
-MetaData Pad {
-}
+    roots	{ match
+    calculatedFrom  as	i8i8	{
 
-packet T {
-    // " ++ [27880; 37322]%N ++ runes_of_ascii "
-    charz @lengthOf(asx) ``,
-}
+[ ""// no comment"" ,""\" ++ [233]%N ++ runes_of_ascii """
 
-packet matchKey {
-    @tag(3)
-    @calculatedFrom(""a	b"")
-    @calculatedFrom("""")
-    pack rootA,
-    repeat leftPad ``,
-    repeat uint32 Foo `u8 x,`,
-    @calculatedFrom(""" ++ [233]%N ++ runes_of_ascii "t" ++ [233]%N ++ runes_of_ascii """)
-    repeat char[65535] u,
-    @lengthOf(_x)
-    @lengthOf(u8x)
-    repeat zchar[0123456789] x,
-    match i64_ as falsey {
-        // trailing space 
-        255 : f32a,
-        ""{,}"" : x,
-        ""\" ++ [233]%N ++ runes_of_ascii """ : matchKey,
-        [
-            10, 0, 65535, """", ""{,}"",
-            """ ++ [128512]%N ++ runes_of_ascii """, ""a	b"", ""1""
-        ] : len,
-        ""\" ++ [233]%N ++ runes_of_ascii """ : T,
-        [
-            1, 007, 1, ""CRC32"", ""// no comment"",
-            ""`tick`"", """ ++ [128512]%N ++ runes_of_ascii """
-        ] : a1,
-    },
-    match x as As {
-        ""a	b"" : o,
-        007 : MetaDataX,
-        [""a	b""] : falsey,
-        ""// no comment"" : Z9_,
-        ""packet"" : _x,
-    },
-    repeat rootA {
-        uint8 MetaDataX @calculatedFrom(""abc""),
-        match int as asx {
-            [10, 10, 00, 4294967296, ""`tick`""] : o,
-            ""CRC32"" : string_,
-            [0] : roots,
-            65535 : _x,
-            ""it's"" : Pad,
-            4294967296 : Pad,
-        },
-        u16 chars `line1
-                line2`,//x
-    },
-}")).
-Eval vm_compute in ("<<<M1138>>>" ++ check (runes_of_ascii "packet T { @lengthOf(
-Foo ) @tag( 10 )@lengthOf(rootA )chars `it's`,repeat
-    char roots //	t
+,// c
+	10 ,
+
+    ""\n"" ,
+	""{,}""  ,  //	t
+  65535
 ,
-@tag(	0 ) match  charz as leftPad { 0 :tag
-,} , Z9_ // trailing space 
-u128 ,
-    int32 int@calculatedFrom(  ""\n""  ) , @lengthOf( int )	Z9_
-    // " ++ [27880; 37322]%N ++ runes_of_ascii "
-    {
-    repeat	char[] calculatedFrom`crlf
-line`
-,	zchar[0
-    ] o @calculatedFrom( ""\" ++ [233]%N ++ runes_of_ascii """ ) ,
-    u8x{_x
-, // @lengthOf(
-zchar[ 3 ] stringy @lengthOf( T) //	t
+
+""x y"" ]	:	// " ++ [128512]%N ++ runes_of_ascii " emoji
+	As
 ,
-    // trailing space 
-    uint8
-body
-    , char[]falsey
-// `tick` ""quote"" 'q'
-// @lengthOf(
-@calculatedFrom( ""// no comment"" ) `" ++ [233]%N ++ runes_of_ascii "` , /// triple
-}
-, }
-    , @tag(
-1 )@calculatedFrom(""a\\""
-    )
-    // c
-    @rightPad(
-    '0')
-    i32 tag @calculatedFrom(
-    ""a\""b""
-) `crlf
-line` , match
-    BodyLength as	f32a
-    {[ 3
-    ,""`tick`"" , ""`tick`"" , 007 , ""1"" , 65535// " ++ [128512]%N ++ runes_of_ascii " emoji
-, //	t
-1	,  0
-] :
-Z9_ ,
-[ ""CRC32"" ,
-    ""a\\""
-] :
-chars
-,
-""a\""b""
-: roots , 1
-: f32a
-    , // " ++ [27880; 37322]%N ++ runes_of_ascii "
-}
-    , trueish{
-//
-/// triple
-zchar{ match Pad
-as tag {  [
-0123456789 , 00
-,
-    7,""a	b"" , // @lengthOf(
-""CRC32"" ] :
-    options1 ,
-    // @lengthOf(
-    } , pack  { zchar[ 10
-]
-    chars ,}	,u `crlf
-line`  , repeat // " ++ [27880; 37322]%N ++ runes_of_ascii "
-int32 _x `two words` ,  } , }, // trailing space 
-falsey
-    As , } options {falsey // " ++ [128512]%N ++ runes_of_ascii " emoji
-=
-    ""abc"" ; Foo=	false ; } root
-packet
-A { @lengthOf(uint8x ) match u8x as
-msg_type
-{ [
-007 , 00 ]: u128 , [	255 ,// a // b
-""{,}""
-    ,
     10
-// " ++ [128512]%N ++ runes_of_ascii " emoji
-// " ++ [27880; 37322]%N ++ runes_of_ascii "
-, ""// no comment""	,""""  ,
-    """ ++ [128512]%N ++ runes_of_ascii """ ] :
-T ,255:string_ , ""`tick`"" :
-As
-},
-}MetaData chars
-{
-char[	65535 ]
-roots, i64 u128 , char[ 42]	pack // " ++ [128512]%N ++ runes_of_ascii " emoji
-,} //x")).
-Eval vm_compute in ("<<<M641>>>" ++ check (runes_of_ascii "options { T=""it's"" ; // trailing space 
-Z9_  =""\" ++ [233]%N ++ runes_of_ascii """
-int = '\x00'u8x  =	""`tick`""crc
-=""packet"" ;	} root // packet A { u8 x, }
-packet string_ { match charz
-//x
-// c
-as u { // " ++ [128512]%N ++ runes_of_ascii " emoji
-0123456789 :
-    zchar , 42
-    // packet A { u8 x, }
-    :rootA ,  007:
-//	t
-// packet A { u8 x, }
-crc , """ ++ [28040; 24687]%N ++ runes_of_ascii """ : Foo[
-007	, ""x y"" ] :int , // " ++ [27880; 37322]%N ++ runes_of_ascii "
-}
-,
-    @tag(  7
-// a // b
-// @lengthOf(
-) repeat
-// `tick` ""quote"" 'q'
-//
-metadata, string len // a // b
-@lengthOf( o ) `crlf
-line` , repeat int32 falsey `
-`
-// a // b
-// " ++ [27880; 37322]%N ++ runes_of_ascii "
-, @leftPad( )
-x
-    @calculatedFrom(
-    ""// no comment"" )`// not a comment`
-,uint16 rootA , @lengthOf( a1// `tick` ""quote"" 'q'
-) char calculatedFrom , @tag( /// triple
-3 ) zchar[ 65535 ]	body ,}
-packet Logon // `tick` ""quote"" 'q'
-{ @leftPad (/// triple
-)@tag( 7 )
-char
-u128 `say ""hi""` ,
-@tag( 10 ) char[42  ]
-    roots , } root // " ++ [27880; 37322]%N ++ runes_of_ascii "
-packet	i64_ {
-    repeat
-    _x { repeat
-    // @lengthOf(
-    MetaDataX o //x
-, } , u128 { asx { u8 a1  ,
-repeat	As, // a // b
-}	,} ,
-    int16 Foo ,
-    u64
-asx `
-` , u8x @lengthOf( crc ) //	t
-, @calculatedFrom(
-    // `tick` ""quote"" 'q'
-    ""CRC32"" ) @lengthOf(body	) @tag( 7 ) falsey
-//x
-// a // b
-body
-`{ , }` ,	MetaDataX { trueish
-MetaDataX`tab	here` , char[ 3 ] i8i8
-@calculatedFrom(""" ++ [128512]%N ++ runes_of_ascii """  )
-`" ++ [233]%N ++ runes_of_ascii "`, },
-}options { _x
-=false
-    _x
-    =// c
-char[
-    0123456789 ]	repeatCount
-=
-    ' '_x = ""packet"";
-}
+    : o , 
+""\" ++ [233]%N ++ runes_of_ascii """ :
+	MetaDataX
+	}	,
 
-")).
-Eval vm_compute in ("<<<M741>>>" ++ check (runes_of_ascii "packet float { @calculatedFrom(
-// @lengthOf(
-// a // b
-""abc"" ) u64 roots
-, repeat u {repeat A `a\` , As @lengthOf( len ) , uint16 falsey ,
-    leftPad @lengthOf(
-//x
-// c
-crc)
-    ,
-    } , zchar[007 ]
-    int
-`a\`
-    ,
-@calculatedFrom( ""x y"")
-char[] Logon `
-`// `tick` ""quote"" 'q'
-, @rightPad ( ' ' // a // b
-)@lengthOf(
-tag) @tag( 0123456789 ) match
-    rootA as Z9_{ 65535 :
-    chars ""1"" : Pad // packet A { u8 x, }
-, }, @tag(	65535 ) tag
-    // " ++ [27880; 37322]%N ++ runes_of_ascii "
-    { char[
-//
-// " ++ [27880; 37322]%N ++ runes_of_ascii "
-255]// @lengthOf(
-charz@lengthOf( len
-)`a\` ,uint16 i64_
-@lengthOf(string_
-//x
-//
-) , }
-    ,
-// c
-/// triple
-o o `// not a comment` , @calculatedFrom(
-""1"" ) repeat T `" ++ [28040; 24687; 31867; 22411]%N ++ runes_of_ascii "`	, } root packet crc
-{ repeat
-zchar[ 4294967296
-    ] u8x, match MetaDataX as
-string_
-{
-[""`tick`"" ,	""packet""	, 10
-, ""packet"",	""// no comment"" , """ ++ [233]%N ++ runes_of_ascii "t" ++ [233]%N ++ runes_of_ascii """ ,
-65535] : stringy
-// packet A { u8 x, }
-//
-,
-[
-    3 ] :	stringy, [""" ++ [28040; 24687]%N ++ runes_of_ascii """ , 3 ] : asx	, // " ++ [128512]%N ++ runes_of_ascii " emoji
-[ 7, // @lengthOf(
-00, // @lengthOf(
-""" ++ [28040; 24687]%N ++ runes_of_ascii """ , ""a	b"" , 0, 4294967296// @lengthOf(
-,255
-,  007 ] :As//
-,
-""1"" : x_y_z
-// `tick` ""quote"" 'q'
-// @lengthOf(
-, } , } MetaData
-    falsey { } packet o // c
-{ @lengthOf(	Packet/// triple
-)
-@lengthOf( Z9_ ) @leftPad (
-'\x00' ) repeat
-Pad// packet A { u8 x, }
-matchKey
-,}
-MetaData
-stringy {}
-")).
-Eval vm_compute in ("<<<M867>>>" ++ check (runes_of_ascii "packet asx { a1
-{ match
-pack
-//	t
-//	t
-as
-body {
-    255:	rootA , } ,
-x_y_z
-//x
-//	t
-@calculatedFrom(
-"""" ) ,repeat A metadata, }
-,	match
-    // `tick` ""quote"" 'q'
-    stringy
-as BodyLength { 00
-// @lengthOf(
-// `tick` ""quote"" 'q'
-:charz ,
-[00
-,
-    65535
-, ""a\\"",
-    ""{,}""
-,0
-    // trailing space 
-    ]
-:
-lengthOf ,	[ ""\" ++ [233]%N ++ runes_of_ascii """ ] :
-chars [4294967296 , 4294967296 ,
-/// triple
-//	t
-""\n"" , """ ++ [233]%N ++ runes_of_ascii "t" ++ [233]%N ++ runes_of_ascii """ ]  :	Foo , [ 42
-    ,00//x
-, ""// no comment""
-    ,
-    """",""`tick`""
-    , ""1"" , 3,
-""packet"" ]:
-matchKey , /// triple
-""\n"" :
-repeatCount
-, }	, repeat chars , repeat o lengthOf//
-`it's` , x { uint16
-A`doc` ,match	A as
-pack	{
-    ""abc"" :u8x ,007 :BodyLength,	""a\""b"" : charz, 7: _x ,
-0 :Logon , } ,
-string_, Logon @calculatedFrom( """ ++ [128512]%N ++ runes_of_ascii """
-)  `` , }// c
-, @calculatedFrom(""" ++ [28040; 24687]%N ++ runes_of_ascii """ )
-    // `tick` ""quote"" 'q'
-    @lengthOf( body
-    // a // b
-    ) char[] a1 // c
-`a\` , repeat uint8x msg_type
-    , repeat char[ 0123456789
-    ]
-/// triple
-/// triple
-len ,char[ 10 ] uint8x@calculatedFrom( ""CRC32""
-)
-,  }
-packet Header {
-// c
-// @lengthOf(
-@tag(65535 )options1 ,  @rightPad
-( '\x00'
-)repeat
-_x ,
-@calculatedFrom(// c
-""\" ++ [233]%N ++ runes_of_ascii """
-    // " ++ [27880; 37322]%N ++ runes_of_ascii "
-    )int16 len	`crlf
-line` ,
-f32 trueish,
-}")).
-Eval vm_compute in ("<<<M994>>>" ++ check (runes_of_ascii "// c
-packet options1 {	roots
-    // " ++ [128512]%N ++ runes_of_ascii " emoji
-    @lengthOf( zchar ) , @calculatedFrom(
-""" ++ [128512]%N ++ runes_of_ascii """
-)uint64 //
-matchKey
-, @tag(
-42 ) i64
-    // trailing space 
-    Logon@lengthOf(
-i64_  )// `tick` ""quote"" 'q'
-`doc` //x
-, @calculatedFrom(""a\""b""
-    ) A , @calculatedFrom(
-    ""it's"")repeat Pad``
-, @tag( 7 ) zchar[ 00 ]  trueish`" ++ [233]%N ++ runes_of_ascii "`, repeat options1 {
-repeatCount
-{
-Header ,
-char[
-// " ++ [128512]%N ++ runes_of_ascii " emoji
-// packet A { u8 x, }
-7 ]
-Logon
-`a\` , /// triple
-}
-,}, char[1
-] int
-`doc` , // a // b
-@calculatedFrom(""""
-)@calculatedFrom(
-    ""a	b""
-)
-@lengthOf( packetx )
-msg_type// trailing space 
-{ string calculatedFrom `{ , }`
-    // `tick` ""quote"" 'q'
-    , zchar  @calculatedFrom(""" ++ [28040; 24687]%N ++ runes_of_ascii """
-) , uint8
-// " ++ [128512]%N ++ runes_of_ascii " emoji
-// trailing space 
-o `doc` // " ++ [128512]%N ++ runes_of_ascii " emoji
-, f32a ,}  , //x
-} MetaData
-    Z9_ {
-char A//	t
-, }packet // trailing space 
-options1 {
-msg_type { chars ,	zchar[
-3 ] crc
-    `doc`, } ,
-@lengthOf( crc) @tag(10) @lengthOf(asx
-    )zchar[ 10 ]
-Header @calculatedFrom( ""a\\"" ) `u8 x,` ,
-} packet
-int
-{ string x_y_z , @calculatedFrom( ""\" ++ [233]%N ++ runes_of_ascii """)	match pack as
-    roots { 65535 :
-    options1 , // @lengthOf(
-}
-,
-    }
-")).
-Eval vm_compute in ("<<<M3913>>>" ++ check (runes_of_ascii "packet BodyLength {
-    @rightPad()
-    int8 BodyLength @calculatedFrom(""packet"") `
-        `,
-    u8x calculatedFrom,//x
-    repeat f32a {
-        zchar[3] BodyLength,
-        match i8i8 as A {
-            3 : packetx,
-            ""CRC32"" : options1,
-        },
-    },
-    @leftPad(' ')
-    @lengthOf(Header)
-    repeat len string_,
-    @tag(4294967296)
-    @calculatedFrom(""" ++ [233]%N ++ runes_of_ascii "t" ++ [233]%N ++ runes_of_ascii """)
-    len repeatCount,
-    u64 i64_ `{ , }`,
-    i16 o,
-    @lengthOf(repeatCount)
-    @lengthOf(Header)
-    @rightPad('\x00')
-    repeat options1 {
-        // c
-        roots @calculatedFrom(""1"") `tab	here`,
-        repeat options1 zchar,
-        repeat a1 {
-            u128 {
-                match Z9_ as x {
-                    ""`tick`"" : o,
-                    ""`tick`"" : pack,
-                    [255] : Header,
-                    3 : asx,
-                    [255, ""CRC32""] : charz,
-                },
-            },
-        },
-        char[10] stringy,
-    },// " ++ [27880; 37322]%N ++ runes_of_ascii "
-    @leftPad()
-    // packet A { u8 x, }
-    // a // b
-    char[007] len `doc`,
-}")).
-Eval vm_compute in ("<<<M1226>>>" ++ check (runes_of_ascii "root packet u128 {
-@lengthOf(
-// `tick` ""quote"" 'q'
-//x
-T) repeat Header
-    , @tag(
-    255) @tag(
-    //x
-    255 ) //x
-u64
-    crc
-    , @tag( 65535
-) @lengthOf( u128
-)uint32 chars ,	} packet
-i64_	{ i8 string_ @calculatedFrom(	""it's"" ) , @leftPad
-( ' '
-//	t
-// " ++ [27880; 37322]%N ++ runes_of_ascii "
-) repeat //x
-Pad
-{ repeat MetaDataX {
-o packetx , roots Header ,
-match falsey as
-    roots {007  :msg_type ,[ 10	] :	T"""" // c
-:Packet,	42
-:msg_type ,
-    }
-, string
-    string_`tab	here`
-    , } ,
-repeat  float64  repeatCount`doc` // packet A { u8 x, }
-, // @lengthOf(
-}
-,match falsey as u8x
-    { ""\" ++ [233]%N ++ runes_of_ascii """ : metadata 0 :repeatCount
-    ,
-    0123456789
-:repeatCount , ""packet"": Foo
-// @lengthOf(
-// @lengthOf(
-, 0123456789
-: tag ,
-    },
-@lengthOf(
-As )
-match A	as // " ++ [128512]%N ++ runes_of_ascii " emoji
-repeatCount{
-    42  : a1
-    ,65535
-    :
-Packet , 7 :	len """" : rootA """ ++ [233]%N ++ runes_of_ascii "t" ++ [233]%N ++ runes_of_ascii """ : rootA},
-    @calculatedFrom( ""CRC32"" )
-    repeatCount @calculatedFrom( ""`tick`"" )	,
-f32 crc `doc` ,
-crc  ,
-// c
-// packet A { u8 x, }
-char[] Header
-,
-} 	 ")).
-Eval vm_compute in ("<<<M1304>>>" ++ check (runes_of_ascii "
-packet matchKey //	t
-{ @leftPad
-(
-    ) // a // b
-calculatedFrom	,@lengthOf( msg_type
-    // `tick` ""quote"" 'q'
-    )	repeat x_y_z `doc`  , uint8 o //
-@lengthOf( leftPad )`" ++ [28040; 24687; 31867; 22411]%N ++ runes_of_ascii "` , repeat x_y_z
-{match
-    u8x	as i8i8 {
-""a\""b"" : lengthOf ,
-    [
-3
-    ,
-""a\""b""
-, 65535
-,00 ,
-    10 , ""1"" ]//x
-:
-// trailing space 
-// c
-roots,
-3:  crc
-    ,
-    [ """ ++ [28040; 24687]%N ++ runes_of_ascii """,3 // a // b
-] //	t
-:	msg_type , [ """ ++ [128512]%N ++ runes_of_ascii """	] : Packet , 4294967296 :
-    matchKey
-    // " ++ [128512]%N ++ runes_of_ascii " emoji
-    }, match A // a // b
-as u8x
-{
-3 : Packet 1  : Pad ,
-// " ++ [128512]%N ++ runes_of_ascii " emoji
-// trailing space 
-""1""
-    :
-//	t
-// " ++ [27880; 37322]%N ++ runes_of_ascii "
-options1 , }
-,asx
-    { o `// not a comment`
-    , repeat
-    rootA `// not a comment` ,
-    i8i8 @lengthOf(stringy ) `" ++ [28040; 24687; 31867; 22411]%N ++ runes_of_ascii "`
-    , zchar[
-    // trailing space 
-    3] options1 @calculatedFrom(""x y"" ) ,},
-} ,
-}  packet
-    // " ++ [128512]%N ++ runes_of_ascii " emoji
-    A { @calculatedFrom( """" ) @tag(0123456789 )f32a packetx `say ""hi""`,
-    repeat
-    x  uint8x ,}  options {} // trailing space ")).
-Eval vm_compute in ("<<<M4357>>>" ++ check (runes_of_ascii "packet leftPad {
-    @tag(3)
-    @tag(255)
-    @tag(7)
-    Packet @calculatedFrom(""\n""),
-    @calculatedFrom(""abc"")
-    repeat f32a trueish `// not a comment`,
-    match calculatedFrom as stringy {
-        [1, 65535] : u,
-    },
-    zchar[10] o ``,
-    @lengthOf(calculatedFrom)
-    char x_y_z,
-    char[] BodyLength,
-    stringy o `line1
-    line2`,
-    @tag(00)
-    options1 {
-        // @lengthOf(
-        float32 asx @lengthOf(roots),
-        // " ++ [128512]%N ++ runes_of_ascii " emoji
-        // `tick` ""quote"" 'q'
-        match Z9_ as int {
-            ""{,}"" : A,
-            [""a\""b"", ""it's""] : repeatCount,
-            1 : float,
-            ""a\\"" : zchar,
-            // `tick` ""quote"" 'q'
-            [
-                0, 0, 00, 0, ""abc"",
-                """ ++ [128512]%N ++ runes_of_ascii """
-            ] : T,
-            0123456789 : As,
-        },
-    },
-    @lengthOf(msg_type)
-    i8 matchKey,
-    repeat len len `a\`,
-}")).
-Eval vm_compute in ("<<<M4063>>>" ++ check (runes_of_ascii "
-
-  packet  u128 {
-	@tag(  0)
-
-BodyLength{  Z9_ { stringy {metadata  
-  // @lengthOf(
-
-// a // b
-  	,
-	} ,zchar @lengthOf(
-x_y_z 
-)
-,
-	match
-
-lengthOf  as float
-{ 10 :  repeatCount
-, }  ,
-repeat string
-    Pad
-
-`" ++ [233]%N ++ runes_of_ascii "` ,
-}
-	,  // packet A { u8 x, }
-	u64
-
-    u128
-
-@calculatedFrom(""a\""b""
-)
-	,
-    } ,  @rightPad
-	( 
-'0' )
-    uint32
-    x_y_z
-@lengthOf( crc)
-
-    ,
-    match
-    tag
-    as	roots {  4294967296
-    :
-	packetx
-
-,
-    007
-	:Packet ,  // packet A { u8 x, }
-
-  [""" ++ [128512]%N ++ runes_of_ascii """,  7
-    // trailing space 
-//
-,
-255 	 // " ++ [27880; 37322]%N ++ runes_of_ascii "
-  	,  ""a	b"" 
-]
-:
-	x_y_z  ,
-3
-:
-//	t
-	u128
-    ,
-""a	b""
-	:	u128	,}
-	,Foo 
-@lengthOf(
-o ) , 
-i32
-int
-	,options1  ,
-
-@rightPad()  @rightPad
+@leftPad
 (
 
-'\x00'
-
-) x `crlf
-line`
-, @tag(255)int16
-	u8x
-@lengthOf(
-
-    trueish 
-)
-
-`" ++ [28040; 24687; 31867; 22411]%N ++ runes_of_ascii "`
-
-, f64  leftPad  @calculatedFrom(
-""CRC32""
-	) `doc` , 
-}
-
-")).
-Eval vm_compute in ("<<<M1212>>>" ++ check (runes_of_ascii "/// triple
-packet matchKey {// `tick` ""quote"" 'q'
-repeatCount
-`line1
-line2` , @calculatedFrom(
-""1"")
-u128 @calculatedFrom(
-    ""\" ++ [233]%N ++ runes_of_ascii """ ) , // @lengthOf(
-@calculatedFrom( ""abc""	)repeat int
-uint8x , Packet  @lengthOf(trueish ) , @tag( 3 // `tick` ""quote"" 'q'
-) rootA
-    @lengthOf(asx ) `it's`
-,repeat tag // " ++ [128512]%N ++ runes_of_ascii " emoji
-body ,
-    @lengthOf( //	t
-_x )	@calculatedFrom( ""1""
-) @leftPad ( '0'
-    )
-    i8 i64_	@calculatedFrom( ""a\""b"" ) ,}packet x_y_z {
-@tag(  7) match// @lengthOf(
-Z9_  as i64_	{ """"
-: roots , ""`tick`""
-    :
-T,007: zchar , [ // packet A { u8 x, }
-4294967296 ,	7,4294967296 ,
-4294967296 ,""\" ++ [233]%N ++ runes_of_ascii """, // " ++ [27880; 37322]%N ++ runes_of_ascii "
-10 ,255 ]	: pack
-// packet A { u8 x, }
-//
-, 1 : asx
-,""CRC32"" :
-x_y_z } , // a // b
-} options
-    { // c
-}
-root //
-packet packetx{i8i8 @lengthOf( u128 ) , }")).
-Eval vm_compute in ("<<<M1086>>>" ++ check (runes_of_ascii "packet
-u128 {
-    @tag( 0 ) BodyLength { Z9_ {  stringy {	metadata
-// @lengthOf(
-// a // b
-, } ,	zchar @lengthOf(
-x_y_z)
-, match	lengthOf
-as
-    float{ 10 : repeatCount,
-}
-    , repeat
-string Pad `" ++ [233]%N ++ runes_of_ascii "` , } , // packet A { u8 x, }
-u64
-u128 @calculatedFrom( ""a\""b""
-    ) ,} ,@rightPad
-(	'0') uint32
-    x_y_z@lengthOf(crc ) ,
-    match tag	as
-roots {
-    4294967296 : packetx , 007
-    :
-    Packet
-,// packet A { u8 x, }
-[ """ ++ [128512]%N ++ runes_of_ascii """
-,	7
-// trailing space 
-//
-, 255 // " ++ [27880; 37322]%N ++ runes_of_ascii "
-, ""a	b""
-]
-: x_y_z
-,
-3	:
-    //	t
-    u128,
-""a	b"" : u128,}  , Foo
-@lengthOf( o ), i32 int
-    , options1 ,	@rightPad(
-    ) @rightPad (  '\x00' )
-x
-`crlf
-line` , @tag(
-255
-)  int16 u8x@lengthOf(trueish)  `" ++ [28040; 24687; 31867; 22411]%N ++ runes_of_ascii "` ,
-f64 leftPad @calculatedFrom( ""CRC32"" ) `doc`,
-    }")).
-Eval vm_compute in ("<<<M3627>>>" ++ check (runes_of_ascii "options {
-    LittleEndian = false;
-    StringPrefixLenType = u8;
-    ArrayPrefixLenType = u8;
-    FixedStringPadFromLeft = true;
-    FixedStringPadChar = ' ';
-}
-packet Trade {
-    zchar[2] Side2,
-    i8 seqNo,
-}
-packet Party {
-    uint32 price,
-}
-packet Ack {
-    @rightPad('\x00') char[6] x,
-    repeat char[4] Flags,
-    zchar[9] f1,
-}
-packet Cancel {
-    Ack,
-}
-packet Heartbeat {
-    string Px,
-    string Acct,
-    f64 Side2,
-    InQty24 {
-        i16 seqNo,
-        repeat i32 Flags,
-    },
-}
-root packet Logon {
-    Trade,
-    i64 venue,
-    u32 x,
-    u8 seqNo,
-    match seqNo as Body {
-        [1, 164] : Ack,
-        31 : Cancel,
-        23 : Heartbeat,
-        64 : Party,
-    },
-}
-")).
-Eval vm_compute in ("<<<M362>>>" ++ check (runes_of_ascii "  packet
-    // a // b
-    MetaDataX {
-match _x as roots {
-""`tick`"" :o , [00, // `tick` ""quote"" 'q'
-0123456789
-, 1 ,
-    0123456789,""a\\""  ,
-    ""`tick`""  , 007
-,
-    // " ++ [27880; 37322]%N ++ runes_of_ascii "
-    ""// no comment""]
-: Logon , }	, f32 len @calculatedFrom(
-""{,}"" // c
-) `" ++ [233]%N ++ runes_of_ascii "` , // a // b
-@calculatedFrom( """") @leftPad
-( '\x00') i32 calculatedFrom@lengthOf(
-    Packet)
-    // @lengthOf(
-    `line1
-line2`
-    , @calculatedFrom( ""\" ++ [233]%N ++ runes_of_ascii """	)
-match asx as	As { ""it's"" :_x,""x y""  : calculatedFrom, ""packet"" :
-    Pad
-, } ,  char[] x, char[] matchKey,trueish lengthOf ,@lengthOf(roots	) repeat len // c
-, @lengthOf( crc) repeat
-//
-// " ++ [27880; 37322]%N ++ runes_of_ascii "
-char[]u128 `tab	here`, repeat u64 Header
-    //
-    , }
-")).
-Eval vm_compute in ("<<<M4068>>>" ++ check (runes_of_ascii "packet Foo
-	{@calculatedFrom( ""`tick`""
-	)
-
-@rightPad
-
-    ( ' '
-)
-
-/// triple
-  	//x
-	repeat
-	float 
-{
-repeatCount ,/// triple
-    zchar[ 
-0123456789
-
-    ] rootA
-
-@calculatedFrom(""{,}""
-)
-,
-
-match
-
-// c
-// a // b
-	matchKey 
-as
-
-T{
-	""\n""	:o
-	//
-
+    '\x00' )
+    @lengthOf(  a1)
 	// `tick` ""quote"" 'q'
-    	00
-:tag [
+		@calculatedFrom(
+""a\\""
 
-3// trailing space 
-    ,
-    65535
-
-// trailing space 
-	]	:	body	, }
-, 
-} ,@rightPad 
-    // @lengthOf(
-  (' '  )  @leftPad
-
-    ( 
-'0' ) 
-string
-
-    packetx
-
-    @calculatedFrom(  ""x y""  ), @lengthOf( charz 
-) string i64_ `crlf
-line` ,
-
-    @rightPad
-
-    (
-'0' ) repeat
-	string calculatedFrom
-`tab	here`
+    )
+    uint16
+float
+	@calculatedFrom(""`tick`"") 	 //	t
 	,
-}")).
-Eval vm_compute in ("<<<M646>>>" ++ check (runes_of_ascii "  root packet stringy { u
-@calculatedFrom(	""packet""	)
-``,  @calculatedFrom( """ ++ [28040; 24687]%N ++ runes_of_ascii """ ) @lengthOf(//x
-Foo // packet A { u8 x, }
-)@calculatedFrom( // trailing space 
-""abc"" ) u64 zchar ,
-    match body
-// " ++ [128512]%N ++ runes_of_ascii " emoji
-// c
-as
-// trailing space 
-// " ++ [27880; 37322]%N ++ runes_of_ascii "
-body { 0
-:
-charz ""packet"":
-    charz ,
-0123456789
-    : repeatCount , ""\" ++ [233]%N ++ runes_of_ascii """
-:Foo}
-    , repeat string	asx `u8 x,` , } MetaData
-    BodyLength{
-    string Z9_
-,zchar[
-    0123456789
-    ]  Header	,
-    char[65535 ]
-    asx ,zchar[255 ] charz `// not a comment` ,
-f32 crc ,}options	{
-    }packet
-_x{ }packet trueish { @calculatedFrom("""" )x
-, // " ++ [27880; 37322]%N ++ runes_of_ascii "
-} 	 ")).
-Eval vm_compute in ("<<<M1018>>>" ++ check (runes_of_ascii "
-root packet
-Foo
-    {match As as// packet A { u8 x, }
-rootA
-{ ""CRC32""  : packetx
-, 4294967296 : Header , [0123456789
-    ,
-    255
-// @lengthOf(
-//x
-, 0
-    , ""\n""
-,
-    ""packet"" ] : BodyLength
-,
-[
-7
-// a // b
-// c
-, 255
-    , 65535  ,00,
-    3 , ""packet""	, // @lengthOf(
-""abc""] :  f32a
-,} ,
-    f32
-calculatedFrom @lengthOf(// trailing space 
-metadata
-) `crlf
-line` ,
-    } //	t
-options
-{ // c
-x_y_z //x
-=7 body	=zchar[1
-] ; }
-packet i8i8// trailing space 
-{string_{ u32 //x
-options1 // c
-@calculatedFrom(
-""1"" )  , }// `tick` ""quote"" 'q'
-,} // `tick` ""quote"" 'q'")).
-Eval vm_compute in ("<<<M4102>>>" ++ check (runes_of_ascii "
+    string BodyLength
+    @calculatedFrom(
 
-  packet falsey	{} 
-packet
-i64_
-	{i64 metadata
+    ""x y"" ) ,
+
+calculatedFrom
+    stringy // packet A { u8 x, }
+,
+
+@lengthOf(  a1
+
+)
+    @tag(
+
+    65535
+	) char[] falsey `// not a comment`
+
+,
+	@calculatedFrom( """ ++ [233]%N ++ runes_of_ascii "t" ++ [233]%N ++ runes_of_ascii """  )
+
+    char[
+    255 ]/// triple
+		msg_type ,  o
+    ,	@rightPad
+(
+
+    '0'
+	)	// trailing space 
+
+repeat  rootA {
+x
+
+{repeat 
+u8
+    Z9_  `
+`
+, 
+char[
+    255]// " ++ [128512]%N ++ runes_of_ascii " emoji
+    leftPad  , 
+int32 len `line1
+line2`  , 
+} , // `tick` ""quote"" 'q'
+
+	repeat
+
+    uint8x 
+{char[]
+rootA
     @lengthOf(
 
-    len)
-,	repeat
-	i16 // a // b
+Z9_
 
-float
+    )
+	,
+
+    match  zchar  as
+	x_y_z  { 0:  Z9_
+
+    ,[  007 ,
+007
+, 
+1 ,
+007	,""""  ,
+	""1""  ]  :
+
+packetx , [ ""1"" ,
+
+"""" ] 
+:len
+    ,
+
+""""
+    :
+BodyLength
+    , [
+""// no comment""
+
+    ,
+        //	t
+
+	""" ++ [128512]%N ++ runes_of_ascii """ 
+, ""`tick`""]
+
+:
+	chars
+
+,10
+	:  T} , }	,
+        // " ++ [27880; 37322]%N ++ runes_of_ascii "
+	a1
+
+@lengthOf(body), 
+} 
+//x
+, 
+}  MetaData// c
+	crc
+{
+    }	options	{
+	rootA = 
+'\x00' }  packet  lengthOf{
+char[]
+
+    float 	 // " ++ [128512]%N ++ runes_of_ascii " emoji
+	`" ++ [28040; 24687; 31867; 22411]%N ++ runes_of_ascii "`  , char[]
+	falsey
 
     ,
 
-}
-packet
+repeatCount
 
-Pad
-{
-@lengthOf(
-
-Logon
-	)Packet
-{
-
-string
-matchKey
-
-    , zchar[  65535
-    ] metadata,
-string metadata `" ++ [28040; 24687; 31867; 22411]%N ++ runes_of_ascii "`
-
-,  repeat
-
-    char[ 0123456789
-] rootA
-    ,  }
-	, @tag(
-4294967296 )repeat a1 
-  // `tick` ""quote"" 'q'
-	float
-`// not a comment`  ,	repeat
-char[ //	t
-	3 ]As
-
-`{ , }` ,
-@calculatedFrom( 
-""packet"" )
-    match  T as
-
-    packetx
-{""a\\""
-:
-    Packet, 
-    // a // b
-	}  /// triple
-
-,
-} ")).
-Eval vm_compute in ("<<<M1209>>>" ++ check (runes_of_ascii "options { rootA = false ; }MetaData /// triple
-float { u16 falsey ``
-,  char[ 1 ]
-options1 , uint32 stringy `` , f32
-leftPad  `it's`	,
-    /// triple
-    x repeatCount ,asx
-    repeatCount
-`{ , }` ,
-    }  packet
-    rootA { @tag(
-    7 ) len string_ , } packet As
-{@leftPad ( ' '
-    // " ++ [128512]%N ++ runes_of_ascii " emoji
-    ) repeat chars { f32 leftPad @lengthOf( Packet ) `a\` ,
-    int32
-    //x
-    T `tab	here`	, match string_ as len { 65535
-: rootA ,} , A { falsey @calculatedFrom(
-    ""CRC32"" ) ,
-    uint8x
-,
-zchar ,} , } , }
-")).
-Eval vm_compute in ("<<<M722>>>" ++ check (runes_of_ascii "
-options{
-} MetaData
-    trueish{  }
-MetaData
-options1
-    {
-    // @lengthOf(
-    Z9_ Logon `doc` ,
-    }
-packet i64_ /// triple
-{
-    falsey
-// " ++ [27880; 37322]%N ++ runes_of_ascii "
-/// triple
-rootA
-    ,	@calculatedFrom( ""// no comment"")
-string x_y_z
-,	rootA`{ , }` ,	u `tab	here` // " ++ [128512]%N ++ runes_of_ascii " emoji
-, i64_ Packet, _x
-asx	,@tag( 255 )uint64 trueish , @tag(
-    4294967296 ) @rightPad ( ' '  ) @calculatedFrom( """ ++ [28040; 24687]%N ++ runes_of_ascii """) i64 //
-MetaDataX, @leftPad (' ' // packet A { u8 x, }
-) Pad `a\` , } packet
-asx
-    {// packet A { u8 x, }
-}")).
-Eval vm_compute in ("<<<M337>>>" ++ check (runes_of_ascii "options { }packet BodyLength {i8i8 @lengthOf(trueish ) , repeat body ,// " ++ [27880; 37322]%N ++ runes_of_ascii "
-@calculatedFrom( ""1"" )repeat int64 i64_ ,@tag(0 )
-    MetaDataX msg_type `" ++ [28040; 24687; 31867; 22411]%N ++ runes_of_ascii "`  , Pad { Header @calculatedFrom( """"), }, @tag(  42
-    ) u8 asx `u8 x,` , @tag( 3
-) repeat string_ {
-metadata
-{// @lengthOf(
-char[ 0123456789  ] crc, Packet
-    `" ++ [28040; 24687; 31867; 22411]%N ++ runes_of_ascii "` , //x
-options1
-    // " ++ [128512]%N ++ runes_of_ascii " emoji
-    `tab	here` // packet A { u8 x, }
-,
-}, repeat Packet , } , }
-    //x
-    options { x
-    =  char[ 10	] ; }")).
-Eval vm_compute in ("<<<M4221>>>" ++ check (runes_of_ascii "MetaData u {
-    int8 body,
-    string Packet,
-}
-
-options {
-    matchKey = float64;
-}
-
-packet roots {
-    @calculatedFrom(""abc"")
-    match MetaDataX as _x {
-        007 : o,
-        [
-            42, 65535, 1, 65535, 4294967296,
-            00, ""x y"", ""a	b""
-        ] : f32a,
-        ""CRC32"" : repeatCount,
-        ""CRC32"" : u128,
-    },
-}
-
-options {
-}
-
-MetaData uint8x {
-    char[] u128,
-    body crc `
-        `,
-    lengthOf rootA,
-    i8 crc,
-}")).
-Eval vm_compute in ("<<<M1333>>>" ++ check (runes_of_ascii "root	packet chars{
-uint16
-//x
-// @lengthOf(
-As
-@lengthOf( len )
-,
-    // trailing space 
-    repeat char[ 4294967296
-]	Header ,@calculatedFrom( ""a	b""
-    ) @tag(
-1
-)@lengthOf( uint8x //
-) T msg_type ,
-@lengthOf(
-u8x )lengthOf int
-    // packet A { u8 x, }
-    `" ++ [28040; 24687; 31867; 22411]%N ++ runes_of_ascii "` ,
-@leftPad
-('0'
-) @calculatedFrom( ""a	b"") char[] packetx`say ""hi""`
-, uint8x	{ float32 tag , }
-    , @leftPad ( )char[ 3  ]
-    msg_type `" ++ [233]%N ++ runes_of_ascii "` ,
-    } options{
-}
-")).
-Eval vm_compute in ("<<<M813>>>" ++ check (runes_of_ascii "packet chars	{
-} root  packet chars { zchar[// @lengthOf(
-00 ]
-    lengthOf
-    `" ++ [28040; 24687; 31867; 22411]%N ++ runes_of_ascii "` ,}root packet  tag  {
-    @rightPad ( '\x00' ) zchar[ 3] Foo @lengthOf(pack),
-zchar[ 10 ]tag ,	repeat uint32
-int, @rightPad
-    ( '\x00'
-)	@lengthOf(f32a ) @rightPad
-//
-//x
-( ' ' )Packet int ,
-match
-    //	t
-    len// " ++ [27880; 37322]%N ++ runes_of_ascii "
-as i8i8
-{ 10	: chars ,}
-    , @calculatedFrom( ""x y"" ) Z9_
-    @calculatedFrom(	""it's""	) ,
-    } //	t")).
-Eval vm_compute in ("<<<M4244>>>" ++ check (runes_of_ascii "
-
-  root
-	packet Header{
-@lengthOf(
-    stringy ) calculatedFrom@lengthOf(
-chars )	,
-char[ 255	] 
-  // `tick` ""quote"" 'q'
-    metadata  ``
-, u8
-    MetaDataX
     `crlf
-line` , 
-} options {} options{ uint8x
-	=
-    42 ;
-	T= i32; calculatedFrom	// `tick` ""quote"" 'q'
-    	=
+line`
+,// packet A { u8 x, }
+    uint32 Foo
 
-""// no comment""
-	;
-	u8x 
-=
+    @lengthOf(
+string_
+)
+`doc`
+    ,@calculatedFrom(  // @lengthOf(
+	""\n""
+) f64
+	Pad
 
-    0
-	}
+    @lengthOf(  i8i8 ) 
+,
+@lengthOf( i8i8 
+)
+    x_y_z  // `tick` ""quote"" 'q'
+    x,	@calculatedFrom(
+""1"" 
+    // packet A { u8 x, }
+	// packet A { u8 x, }
+  )
+pack { float64
+leftPad
+    `crlf
+line`	,
+repeat int {
 
-    root
-packet
-    roots
-    {repeat
+match packetx as
+    repeatCount
+{	// " ++ [27880; 37322]%N ++ runes_of_ascii "
+[
+""a\""b"",
+	    // c
+    42
+    ] :repeatCount // a // b
+    ,
+	3
+: 	 // " ++ [128512]%N ++ runes_of_ascii " emoji
+    	leftPad , ""it's"" 
+:  i8i8 ,
 
-    i64
+""packet"" 
+:x_y_z ""`tick`""
+: asx ,
 
-    falsey 	 //x
-		,}
+    3
+	:
 
+Foo
+,
+    }
+    , i32//	t
+
+  options1 `" ++ [233]%N ++ runes_of_ascii "` ,
+repeat	int
+	i64_ ,
+
+}
+	, }
+
+, } ")).
+Eval vm_compute in ("<<<M1074>>>" ++ check (runes_of_ascii "root packet options1 {
+@rightPad( '0'
+    )	u64  string_
+    `a\`, @lengthOf(u128
+    /// triple
+    ) @tag(	7 )i16 // " ++ [27880; 37322]%N ++ runes_of_ascii "
+o ,repeat uint8 a1 , @lengthOf( msg_type ) repeat float64 Z9_`two words` ,  match metadata
+as
+Logon
+/// triple
+// a // b
+{ [""" ++ [128512]%N ++ runes_of_ascii """
+, 42]
+    : A , } , BodyLength len ,
+    // a // b
+    }
+    packet
+zchar {
+string_ lengthOf , match x as Logon { """ ++ [28040; 24687]%N ++ runes_of_ascii """ : calculatedFrom ,	""" ++ [233]%N ++ runes_of_ascii "t" ++ [233]%N ++ runes_of_ascii """ : roots
+[ 255 ] ://	t
+falsey 255 :
+T ,// packet A { u8 x, }
+}, repeat
+charz ,@calculatedFrom( // " ++ [128512]%N ++ runes_of_ascii " emoji
+""it's""  ) @calculatedFrom( ""\n"" ) @rightPad ( ' ')
+    int32
+    rootA , i64_ leftPad, roots , char[]
+// c
+// " ++ [128512]%N ++ runes_of_ascii " emoji
+msg_type `" ++ [233]%N ++ runes_of_ascii "`
+    , pack @calculatedFrom(""// no comment"" ) , @rightPad ( ' ' )	repeat// trailing space 
+leftPad ,int64 lengthOf,} // trailing space 
+packet  msg_type
+{@lengthOf(
+Z9_ )	repeat trueish
+// " ++ [27880; 37322]%N ++ runes_of_ascii "
+// " ++ [27880; 37322]%N ++ runes_of_ascii "
+{// trailing space 
+stringy
+`{ , }` , u64 calculatedFrom	@calculatedFrom( ""it's"") ,char[ // @lengthOf(
+10 //x
+] crc
+// a // b
+// " ++ [128512]%N ++ runes_of_ascii " emoji
+,
+    }	, match f32a as Logon{
+    // @lengthOf(
+    ""abc""
+: BodyLength, [	0 , 42
+]  :
+    Header
+007: Z9_
+""a\""b"":chars	,
+} ,@lengthOf(  roots
+)options1 // trailing space 
+A `u8 x,`
+    //	t
+    ,  char[
+1 ] u128
+    // " ++ [27880; 37322]%N ++ runes_of_ascii "
+    ,@lengthOf( x_y_z )
+//x
+//
+MetaDataX @calculatedFrom( ""1""
+    )
+`{ , }` , len
+{
+x_y_z Logon ,matchKey repeatCount
+// a // b
+// " ++ [27880; 37322]%N ++ runes_of_ascii "
+,
+T { i8 trueish @calculatedFrom( ""\" ++ [233]%N ++ runes_of_ascii """ )`tab	here`
+,} ,
+    // a // b
+    repeat float zchar /// triple
+`two words` ,} ,repeat  u8	metadata
+`crlf
+line`
+    ,@calculatedFrom( ""\" ++ [233]%N ++ runes_of_ascii """ )char[ 0	]
+trueish
+@calculatedFrom("""" )
+//
+//
+, //x
+uint8 charz // @lengthOf(
+, } MetaData
+    // a // b
+    a1{
+f32 trueish `line1
+line2` ,string uint8x// packet A { u8 x, }
+`" ++ [28040; 24687; 31867; 22411]%N ++ runes_of_ascii "`, i32 tag,
+stringy zchar  `" ++ [28040; 24687; 31867; 22411]%N ++ runes_of_ascii "`
+,	}
 ")).
-Eval vm_compute in ("<<<M4001>>>" ++ check (runes_of_ascii "options {
-    x = ""// no comment""
+Eval vm_compute in ("<<<M681>>>" ++ check (runes_of_ascii "options {	leftPad = false
+    ;
+Packet  =//	t
+int16 ;
+    // c
+    len = ' ' calculatedFrom =65535
+; } MetaData Header{  int32 Z9_ , f32
+zchar `u8 x,` , char[  10 // a // b
+]x , asx
+_x
+`two words`
+    /// triple
+    , zchar[ 1 ]calculatedFrom `it's` ,}
+// a // b
+//	t
+packet
+    o{
+    u msg_type
+// " ++ [27880; 37322]%N ++ runes_of_ascii "
+//
+,@leftPad( '0' ) repeat BodyLength u
+    `" ++ [233]%N ++ runes_of_ascii "` , @leftPad
+('0'// " ++ [27880; 37322]%N ++ runes_of_ascii "
+)@tag( 1 )zchar[ 1 ]i64_ @calculatedFrom( """ ++ [233]%N ++ runes_of_ascii "t" ++ [233]%N ++ runes_of_ascii """	)	`it's` , @lengthOf( x
+    )
+    @tag( 255  ) @tag(  7 )
+repeat zchar[ 10
+] chars
+`two words` ,	@lengthOf(	Foo )rootA `" ++ [233]%N ++ runes_of_ascii "`
+, } packet o {pack // " ++ [27880; 37322]%N ++ runes_of_ascii "
+{repeat i8	lengthOf
+    ,char int //	t
+`u8 x,` ,
+//	t
+// a // b
+i64 matchKey@lengthOf( x_y_z // @lengthOf(
+), }
+, zchar[ 007 ]
+//x
+// packet A { u8 x, }
+metadata`say ""hi""`  , @rightPad ( ' ' )
+    match //x
+MetaDataX
+    as
+x_y_z { 0 : roots , """" : chars
+    ,
+    """ ++ [28040; 24687]%N ++ runes_of_ascii """ : T , 0 :
+//x
+// a // b
+Foo
+//	t
+/// triple
+,
+    [ 0123456789, """ ++ [28040; 24687]%N ++ runes_of_ascii """ , 0 , """ ++ [233]%N ++ runes_of_ascii "t" ++ [233]%N ++ runes_of_ascii """ ,
+    10 , ""a	b""
+, """ ++ [233]%N ++ runes_of_ascii "t" ++ [233]%N ++ runes_of_ascii """ //	t
+,""" ++ [128512]%N ++ runes_of_ascii """
+]  :
+options1 0123456789  :u ,// " ++ [128512]%N ++ runes_of_ascii " emoji
+} , len @calculatedFrom(
+""a\""b""
+) // " ++ [27880; 37322]%N ++ runes_of_ascii "
+, @tag(42 )
+@lengthOf( x_y_z	)
+// a // b
+/// triple
+leftPad chars , //	t
+i8 options1
+@lengthOf(i64_
+    )	,
+repeat
+matchKey `
+` , o	@calculatedFrom( ""`tick`"" ) ,
+    @lengthOf( len ) len
+{match float as
+    rootA {
+[ ""x y""  , ""a\""b"" ,7 , """"
+, """ ++ [233]%N ++ runes_of_ascii "t" ++ [233]%N ++ runes_of_ascii """ , 4294967296
+    ,
+    ""abc"" , 65535
+]: float
+    , } ,	f32
+    Packet ,
+u16 a1	,	zchar[ 65535 ]
+stringy, } ,	} root packet
+    metadata // a // b
+{
+    @tag( 4294967296
+    ) // " ++ [27880; 37322]%N ++ runes_of_ascii "
+string	u8x
+    `a\` , }
+")).
+Eval vm_compute in ("<<<M783>>>" ++ check (runes_of_ascii "MetaData
+asx{ Packet i64_	, zchar[ 0 ] stringy ,
+A tag , }
+    options	{ } root packet
+//x
+// trailing space 
+metadata { repeat x_y_z matchKey , repeat char[]
+x_y_z
+    // packet A { u8 x, }
+    `crlf
+line`	, @lengthOf(	As )  char[]x_y_z ,
+@tag(  00)  @calculatedFrom(""" ++ [233]%N ++ runes_of_ascii "t" ++ [233]%N ++ runes_of_ascii """ )
+    u8	pack @calculatedFrom( ""CRC32"" ) , roots
+    // " ++ [27880; 37322]%N ++ runes_of_ascii "
+    repeatCount ,	uint8x /// triple
+`two words`,
+}  options { Z9_ // `tick` ""quote"" 'q'
+= string Z9_ =
+    0 string_= true ; // c
+crc =
+i64 ; } packet packetx {  @leftPad (
+'0' )// " ++ [128512]%N ++ runes_of_ascii " emoji
+@rightPad
+( '0' ) @lengthOf(
+stringy )
+char[]
+body `" ++ [28040; 24687; 31867; 22411]%N ++ runes_of_ascii "` , // " ++ [27880; 37322]%N ++ runes_of_ascii "
+match u as Foo
+    { // " ++ [27880; 37322]%N ++ runes_of_ascii "
+4294967296 :  Logon , } ,
+match
+stringy as BodyLength{  ""a\\"" :
+    chars 4294967296 : Packet,
+4294967296:	_x,255 :Foo , 1 : roots, }, @rightPad ( '0' ) //x
+match
+    // `tick` ""quote"" 'q'
+    u8x
+as f32a{
+[  ""x y"", // a // b
+""" ++ [128512]%N ++ runes_of_ascii """ ,
+    ""`tick`"" ] : calculatedFrom ,
+    ""a\""b""
+: packetx
+    // packet A { u8 x, }
+    ,	[
+    0 ]
+: /// triple
+As ,[ """ ++ [28040; 24687]%N ++ runes_of_ascii """
+] :
+    // `tick` ""quote"" 'q'
+    Z9_ } ,	@lengthOf(// a // b
+Logon	) match
+    chars as
+    len{[ 3 ,	""a\\""
+    //x
+    ]:string_[
+// `tick` ""quote"" 'q'
+// c
+""it's""  ,// c
+""a\\""	] : len ,
+    [ ""\n""	,
+3
+,""" ++ [28040; 24687]%N ++ runes_of_ascii """ ]
+: rootA , 10	: msg_type , }, char[]	chars@lengthOf( trueish )
+`
+` , //
+@tag( 0
+) repeat // " ++ [128512]%N ++ runes_of_ascii " emoji
+zchar[ 7 ] A	,  char[
+7 ] rootA  ,
+// " ++ [128512]%N ++ runes_of_ascii " emoji
+// c
+}")).
+Eval vm_compute in ("<<<M1348>>>" ++ check (runes_of_ascii "options { tag = 0;} packet u8x
+    { // trailing space 
+u Z9_ , @tag(
+    00 )@rightPad ( '\x00'
+    )  @calculatedFrom(
+""CRC32"" ) //	t
+crc, metadata	@calculatedFrom(
+""a	b""
+    ) // c
+, @tag( 4294967296  ) u64 rootA
+    `tab	here`, // @lengthOf(
+@calculatedFrom( ""\n""
+    )char[]	pack
+    @lengthOf( chars) `" ++ [28040; 24687; 31867; 22411]%N ++ runes_of_ascii "` ,zchar[ 255 ]Foo @lengthOf( f32a ) , @leftPad
+(	) @lengthOf( string_ )
+@rightPad(
+' '
+    )
+    match
+msg_type
+as // " ++ [128512]%N ++ runes_of_ascii " emoji
+falsey  {
+    // a // b
+    ""a	b"" :
+x ,} , @calculatedFrom( ""{,}"" )
+match
+body as MetaDataX {42 // " ++ [27880; 37322]%N ++ runes_of_ascii "
+: u8x 0123456789
+: options1 , // c
+[ 3 ]: As , [ 00 ] :// c
+A ,
+""CRC32""
+: zchar , [	""it's"" ,
+""" ++ [233]%N ++ runes_of_ascii "t" ++ [233]%N ++ runes_of_ascii """  ,	""1"", 3, ""a	b""
+    , 1
+    //x
+    ,  0123456789, //	t
+4294967296
+] :
+    packetx
+    , // " ++ [27880; 37322]%N ++ runes_of_ascii "
+}, repeat uint8 o`{ , }`
+    ,
+//	t
+//
+} packet leftPad {
+u32
+// packet A { u8 x, }
+//x
+packetx
+`a\` ,@calculatedFrom( ""// no comment""	) @rightPad ( ) @lengthOf(
+    asx
+    )
+// c
+// trailing space 
+char[ 42
+    ] calculatedFrom @lengthOf( packetx ), @tag(
+    00
+)stringy  msg_type , u128 i64_ `it's` ,@rightPad
+    ('\x00') u8x
+, @calculatedFrom( """ ++ [28040; 24687]%N ++ runes_of_ascii """
+) len msg_type , // packet A { u8 x, }
+MetaDataX pack
+    // c
+    ,@calculatedFrom( """ ++ [28040; 24687]%N ++ runes_of_ascii """ ) string MetaDataX//	t
+`
+` , }
+")).
+Eval vm_compute in ("<<<M3742>>>" ++ check (runes_of_ascii "// " ++ [27880; 37322]%N ++ runes_of_ascii "
+packet a1 {
+    @calculatedFrom(""" ++ [233]%N ++ runes_of_ascii "t" ++ [233]%N ++ runes_of_ascii """)
+    Logon {
+        options1 falsey `// not a comment`,
+        Z9_ @calculatedFrom(""packet""),
+        int8 Packet `two words`,
+    },
+    @tag(007)
+    char[] chars @lengthOf(Packet) `crlf
+    line`,
+    match msg_type as Header {
+        """ ++ [28040; 24687]%N ++ runes_of_ascii """ : _x,
+        //x
+    },
+    repeat u128 {
+        Logon @calculatedFrom(""it's"") `{ , }`,
+    },
+    int64 calculatedFrom,
+    repeat zchar[0] a1 `say ""hi""`,
+    match options1 as repeatCount {
+        [
+            ""1"", ""`tick`"", 10, ""\" ++ [233]%N ++ runes_of_ascii """, 0123456789,
+            ""a\""b""
+        ] : pack,
+        // @lengthOf(
+        0123456789 : Logon,
+        255 : x,
+    },
+    @calculatedFrom(""abc"")
+    @lengthOf(x)
+    repeat Pad {
+        u8x {
+            uint8 T @lengthOf(float),
+            match Header as trueish {
+                ""a	b"" : body,
+            },
+            int8 MetaDataX @calculatedFrom(""a	b""),
+            i8i8 Pad `" ++ [28040; 24687; 31867; 22411]%N ++ runes_of_ascii "`,
+        },
+        repeat i8 A,// trailing space 
+    },
+    uint32 x @lengthOf(Logon) `two words`,
 }
 
 packet trueish {
-    @lengthOf(_x)
-    Header {
-        char[] Pad @calculatedFrom(""" ++ [28040; 24687]%N ++ runes_of_ascii """),
-        float64 msg_type,
+}
+
+MetaData msg_type {
+}
+
+packet i8i8 {
+    @tag(007)
+    //x
+    zchar[10] msg_type,
+}")).
+Eval vm_compute in ("<<<M3633>>>" ++ check (runes_of_ascii "// top
+options // c0
+{
+    // c1
+LittleEndian // c2a
+  // c2b
+=
+    // c3
+true // c4a
+  // c4b
+; // c5a
+  // c5b
+StringPrefixLenType = u16 // c8a
+  // c8b
+; // c9
+ArrayPrefixLenType // c10a
+  // c10b
+= u64 ; } // c14
+packet // c15
+Fill { // c17
+} // c18
+packet Logon
+    // c20
+{
+    // c21
+repeat
+    // c22
+char[ // c23
+3 // c24a
+  // c24b
+] // c25a
+  // c25b
+Tail
+    // c26
+,
+    // c27
+zchar[ // c28
+6
+    // c29
+] // c30a
+  // c30b
+venue // c31
+,
+    // c32
+repeat // c33a
+  // c33b
+string Side2 // c35a
+  // c35b
+,
+    // c36
+} // c37a
+  // c37b
+root packet Cancel
+    // c40
+{ // c41
+char[] Flags // c43a
+  // c43b
+, char[] // c45
+OrderId ,
+    // c47
+zchar[ 6
+    // c49
+]
+    // c50
+msgKind // c51a
+  // c51b
+,
+    // c52
+Fill // c53a
+  // c53b
+, char[] // c55a
+  // c55b
+Acct , u8 f1
+    // c59
+, match f1
+    // c62
+as Body // c64
+{ // c65a
+  // c65b
+188
+    // c66
+:
+    // c67
+Fill // c68
+,
+    // c69
+5 // c70a
+  // c70b
+:
+    // c71
+Logon , // c73a
+  // c73b
+}
+    // c74
+, // c75
+u32 clOrdID // c77
+@calculatedFrom(
+    // c78
+""CRC32"" ) , } // c82
+")).
+Eval vm_compute in ("<<<M1258>>>" ++ check (runes_of_ascii "options { lengthOf
+    =
+""" ++ [128512]%N ++ runes_of_ascii """  Pad= ""it's""
+    Packet
+=' '
+;} packet
+stringy {@calculatedFrom( ""a\\"" ) stringy asx
+    //x
+    `doc` , f32a  , options1 { f64 BodyLength @lengthOf(i64_ )  , matchKey
+    // `tick` ""quote"" 'q'
+    roots,  repeat i8 chars ,
+    /// triple
+    } ,
+charz
+    string_ ,
+    i8  repeatCount `crlf
+line`
+, }
+    packet uint8x
+    {@tag( 00 // " ++ [128512]%N ++ runes_of_ascii " emoji
+)
+uint64	MetaDataX  ,@tag( 00
+) char uint8x @lengthOf(
+    uint8x
+    ) , roots @lengthOf( stringy  ) `
+`
+, @rightPad ()
+    zchar[ 0123456789
+    //
+    ] T//x
+`" ++ [233]%N ++ runes_of_ascii "`	, @tag(42
+) repeat i64
+    repeatCount // `tick` ""quote"" 'q'
+, falsey `doc` , char[65535]
+falsey
+`say ""hi""` , x_y_z
+    int, @lengthOf(  MetaDataX
+) match
+    Logon
+as
+    leftPad {""abc""	:
+zchar , 255
+: A	,},  }  MetaData falsey{
+    }
+    packet BodyLength
+{ Pad asx , @calculatedFrom(
+""a	b""// " ++ [27880; 37322]%N ++ runes_of_ascii "
+) string packetx
+//
+// packet A { u8 x, }
+`it's`, float64 uint8x
+`two words`
+    ,
+    zchar[ 007
+]	uint8x @calculatedFrom(
+    ""a\\"" //x
+)
+    `" ++ [28040; 24687; 31867; 22411]%N ++ runes_of_ascii "` ,}")).
+Eval vm_compute in ("<<<M4127>>>" ++ check (runes_of_ascii "// packet A { u8 x, }
+packet packetx {
+    @tag(7)
+    f64 o @calculatedFrom(""" ++ [233]%N ++ runes_of_ascii "t" ++ [233]%N ++ runes_of_ascii """),
+    repeat MetaDataX {
+        i8 Logon,
     },
-    repeat string packetx `u8 x,`,
-    match Header as charz {
-        65535 : pack,
+    char[7] string_,
+    repeat o {
+        u16 Foo,
+        repeat i16 packetx,
+        match matchKey as As {
+            ""packet"" : roots,
+            42 : falsey,
+            0123456789 : matchKey,
+            ""\" ++ [233]%N ++ runes_of_ascii """ : zchar,
+            """ ++ [233]%N ++ runes_of_ascii "t" ++ [233]%N ++ runes_of_ascii """ : stringy,
+            [65535] : rootA,
+        },
+        repeat char[] lengthOf,
+    },
+    match x as falsey {
+        ""1"" : Packet,
+        1 : u,
+        0 : charz,
+        [""1""] : pack,
+        ""a\""b"" : options1,
+    },
+    @tag(0)
+    // trailing space 
+    // " ++ [128512]%N ++ runes_of_ascii " emoji
+    repeat int16 matchKey,
+    uint16 rootA ``,// c
+    match string_ as A {
+        [3, """ ++ [28040; 24687]%N ++ runes_of_ascii """] : zchar,
     },
 }
 
-packet float {
+packet f32a {
+}
+
+MetaData falsey {
+    char[] Header,
+    metadata Pad `two words`,
+    zchar[10] calculatedFrom,
+    char[] lengthOf,
+    float32 u `line1
+        line2`,
+}")).
+Eval vm_compute in ("<<<M261>>>" ++ check (runes_of_ascii "root packet pack { match MetaDataX as Packet { 7: trueish , /// triple
+""" ++ [233]%N ++ runes_of_ascii "t" ++ [233]%N ++ runes_of_ascii """: MetaDataX
+,4294967296
+:msg_type  65535 : metadata ,3: x_y_z 42 :
+//
+/// triple
+_x// trailing space 
+,}	, } packet x_y_z
+    {repeat crc	metadata,match A as u8x  { [""it's"" ,""\" ++ [233]%N ++ runes_of_ascii """ ,
+0123456789  , ""1"" ,""abc""
+,""// no comment"", 4294967296 ]
+: pack ,007 : tag , } , } packet
+// c
+//x
+repeatCount  { @lengthOf(stringy )
+uint8 f32a , }options
+{
+BodyLength
+    =  '\x00' ; body
+    = ' ' ; } packet
+    charz { repeat Z9_ rootA `two words` , //
+@calculatedFrom( ""a\\""  ) f32a @lengthOf( msg_type
+    )	`say ""hi""` ,int8 As , string	stringy
+@lengthOf(options1 )
+`crlf
+line`,	i8 i8i8
+, f32a options1,
+@leftPad(
+    '\x00' )
+u
+    @calculatedFrom( """ ++ [128512]%N ++ runes_of_ascii """
+) ,
+@calculatedFrom(
+""\" ++ [233]%N ++ runes_of_ascii """ ) @tag(  00 ) @tag(
+0)
+int64 trueish@calculatedFrom(""`tick`"" // trailing space 
+)
+, @leftPad (
+' ' )
+    zchar@lengthOf( Z9_ )
+,} // " ++ [27880; 37322]%N)).
+Eval vm_compute in ("<<<M1266>>>" ++ check (runes_of_ascii "MetaData
+    //	t
+    i8i8  {
+    u8 string_ `crlf
+line` ,} root // trailing space 
+packet MetaDataX
+{ @rightPad
+    //
+    ( ' '
+)char[] MetaDataX
+@lengthOf(
+packetx	) ,//	t
+} packet packetx	{ @lengthOf(
+uint8x )//
+trueish`doc`	,
+@calculatedFrom(
+    ""a\""b""
+)
+    @rightPad
+    (' '
+) @calculatedFrom(  ""a\\""
+) repeat zchar[7/// triple
+]asx	, @tag( 1
+) char[3 ] string_
+    , string_
+@lengthOf(
+Logon// a // b
+) ,	@rightPad ( // " ++ [128512]%N ++ runes_of_ascii " emoji
+'\x00' )@leftPad
+//x
+// " ++ [128512]%N ++ runes_of_ascii " emoji
+(
+    // " ++ [128512]%N ++ runes_of_ascii " emoji
+    '0' )	repeat
+As
+    // packet A { u8 x, }
+    { trueish { leftPad{i64 crc
+,
+u8 zchar @lengthOf(
+    f32a
+)
+    // packet A { u8 x, }
+    ,
+tag @lengthOf( Z9_ )	`// not a comment` , Z9_  _x , }
+,// packet A { u8 x, }
+char[ 00] Foo `a\` , }	,} , @tag( 7 // packet A { u8 x, }
+) char[
+    4294967296 ] u128	, }
+// packet A { u8 x, }
+")).
+Eval vm_compute in ("<<<M4027>>>" ++ check (runes_of_ascii "packet roots {
+}
+
+root packet metadata {
+    repeat float32 int,
+    _x @lengthOf(packetx) `
+    `,
+    repeat Packet Header,
+    @tag(0)
+    /// triple
+    float32 msg_type @calculatedFrom(""\" ++ [233]%N ++ runes_of_ascii """),
+    char[0] BodyLength,
+    len @calculatedFrom(""" ++ [28040; 24687]%N ++ runes_of_ascii """) `tab	here`,
+}
+
+root packet calculatedFrom {
+    @rightPad(' ')
+    tag @calculatedFrom(""// no comment""),
+    crc @calculatedFrom(""\" ++ [233]%N ++ runes_of_ascii """),
+    @lengthOf(u128)
+    @lengthOf(chars)
+    repeat lengthOf `tab	here`,
+    @tag(007)
+    char[] roots,
+    @calculatedFrom(""" ++ [233]%N ++ runes_of_ascii "t" ++ [233]%N ++ runes_of_ascii """)
+    repeat zchar[0] chars `crlf
+    line`,// `tick` ""quote"" 'q'
+    @calculatedFrom(""a\\"")
+    options1,
+    // " ++ [27880; 37322]%N ++ runes_of_ascii "
+    @rightPad()
+    Z9_ {
+        float32 x_y_z @lengthOf(asx),
+        repeat float32 asx,
+        f32 zchar `" ++ [28040; 24687; 31867; 22411]%N ++ runes_of_ascii "`,
+        char[007] Packet `a\`,
+    },
+}")).
+Eval vm_compute in ("<<<M1305>>>" ++ check (runes_of_ascii "MetaData Packet{	x_y_z // " ++ [27880; 37322]%N ++ runes_of_ascii "
+lengthOf`tab	here` ,
+rootA  u128 `" ++ [28040; 24687; 31867; 22411]%N ++ runes_of_ascii "`, char[ 10 ]	u8x `say ""hi""`, zchar[ 7 ]	i64_ , } packet charz{ @tag( 0 ) match
+    // `tick` ""quote"" 'q'
+    float as // " ++ [128512]%N ++ runes_of_ascii " emoji
+T{//	t
+""packet"" : i8i8, ""CRC32"" : string_ 65535:
+pack	, // @lengthOf(
+} , i32
+    matchKey @calculatedFrom( ""a\""b"") // `tick` ""quote"" 'q'
+, @tag(
+65535)repeat int {
+match// `tick` ""quote"" 'q'
+u8x as zchar{ ""\" ++ [233]%N ++ runes_of_ascii """ :BodyLength} , }, uint16 roots
+    , @rightPad	(
+' ' )int8 i64_ @calculatedFrom( ""it's"" ) , @tag( 255 )
+repeat rootA {repeat string
+Z9_
+, lengthOf roots `" ++ [233]%N ++ runes_of_ascii "`,zchar @calculatedFrom(""x y""  )	`{ , }`
+    , } ,
+    @tag(
+0 ) calculatedFrom
+Logon , } packet leftPad { uint64 A
+, match  pack as	u
+    { ""`tick`"" :
+f32a""1"" :	i8i8  ""\" ++ [233]%N ++ runes_of_ascii """: A ,} , }")).
+Eval vm_compute in ("<<<M4072>>>" ++ check (runes_of_ascii "
+packet Packet
+    { } 
+root
+	packet
+
+    pack { 
+@calculatedFrom(	""CRC32"" ) 
+string	pack
+
+    `two words` 
+// " ++ [128512]%N ++ runes_of_ascii " emoji
+  ,
+    @lengthOf( Pad ) @lengthOf(
+
+rootA)
+
+i16  A
+    `doc`, }
+	options
+{asx  = 00  ;	string_ =
+
+7  ;
+x_y_z  =0123456789;
+
+}packet uint8x
+
+    { int32 trueish  @lengthOf(
+
+roots
+) `say ""hi""` ,
+    @tag(
+
+    1)
+
+    @lengthOf(a1
+
+)	match	f32a as 
+MetaDataX
+{ 
+
+/// triple
+// trailing space 
+	7 
+:pack
+
+65535:
+//
+  // `tick` ""quote"" 'q'
+    calculatedFrom 
+    // a // b
+
+// " ++ [27880; 37322]%N ++ runes_of_ascii "
+
+  ,	[	3 
+, ""// no comment"" , 1 
+,
+    /// triple
+	/// triple
+
+  0123456789
+    ]	: 
+	// c
+      Z9_
+,	4294967296
+	: 
+a1  ,007
+	:
+int """ ++ [128512]%N ++ runes_of_ascii """  : o 
+,  } 
+,
+repeat calculatedFrom
+
+a1 
+`crlf
+line`
+	,
+}")).
+Eval vm_compute in ("<<<M274>>>" ++ check (runes_of_ascii "packet  int  { @calculatedFrom( """ ++ [28040; 24687]%N ++ runes_of_ascii """  )
+@tag(
+    // `tick` ""quote"" 'q'
+    007
+    ) options1 @calculatedFrom( ""CRC32"" ) `tab	here`
+, @lengthOf(
+As )
+    x x_y_z , repeat x
+{ i64 Z9_,
+zchar[
+    // c
+    007 ] body
+//	t
+// a // b
+@lengthOf( uint8x
+    )
+    // c
+    , f64  metadata @calculatedFrom( ""`tick`""	)
+    `tab	here`, }	, } packet msg_type {
+    repeat
+// trailing space 
+// c
+zchar[255 ]A, int64 f32a ,// " ++ [128512]%N ++ runes_of_ascii " emoji
+Pad
+@lengthOf( falsey
+)
+,
+match
+    falsey
+as
+x_y_z {
+7: // `tick` ""quote"" 'q'
+len
+,}
+/// triple
+// c
+, string // " ++ [27880; 37322]%N ++ runes_of_ascii "
+uint8x
+    `a\`,string rootA
+//x
+// a // b
+@lengthOf( int	) ,	}	root
+/// triple
+// `tick` ""quote"" 'q'
+packet pack { crc i64_ , }
+")).
+Eval vm_compute in ("<<<M3795>>>" ++ check (runes_of_ascii "root packet stringy {
+    u8x @lengthOf(A),
+    match f32a as options1 {
+        [""a\""b"", 0123456789] : trueish,
+        [
+            ""a\\"", 3, 65535, 255, """ ++ [233]%N ++ runes_of_ascii "t" ++ [233]%N ++ runes_of_ascii """,
+            65535, ""\" ++ [233]%N ++ runes_of_ascii """
+        ] : body,
+    },
+    @calculatedFrom(""" ++ [128512]%N ++ runes_of_ascii """)
+    repeat uint16 int,
+    repeat tag,
+    @leftPad()
+    match int as u8x {
+        [65535, """ ++ [233]%N ++ runes_of_ascii "t" ++ [233]%N ++ runes_of_ascii """] : metadata,
+    },
+    @rightPad()
+    repeat zchar[7] Logon `crlf
+    line`,
+    As {
+        int64 roots,
+    },// packet A { u8 x, }
+    @tag(255)
+    int64 charz @calculatedFrom(""a	b""),
+    BodyLength lengthOf,
+    float64 As,
+}
+
+packet Foo {
+    char[4294967296] float `u8 x,`,
+}
+
+packet _x {
+}")).
+Eval vm_compute in ("<<<M4552>>>" ++ check (runes_of_ascii "
+packet packetx {  @calculatedFrom(  ""packet"" ) 
+// " ++ [27880; 37322]%N ++ runes_of_ascii "
+	@calculatedFrom(  ""// no comment""	)
+
+    @leftPad /// triple
+(
+'0'
+
+) 	 //	t
+    Z9_
+T, 
+leftPad
+uint8x,
+
+@tag( 4294967296
+        //
+
+)
+leftPad//
+    {roots
+
+{char	options1  , 
+}  ,
+match
+	Pad
+
+    as
+int  {	[
+    10	] :roots  //	t
+,[
+	""CRC32""
+
+,
+    ""1"", 3
+
+    ,
+
+7	, 	 // " ++ [27880; 37322]%N ++ runes_of_ascii "
+0
+,	0	, 
+/// triple
+    	""CRC32""
+,
+7  
+  // `tick` ""quote"" 'q'
+    // a // b
+    ]
+
+:  Packet
+
+,  1
+	:
+
+tag  ,1:
+    matchKey
+[
+42]
+	:
+_x	} , 
+repeat
+tag 
+  // packet A { u8 x, }
+  	// " ++ [128512]%N ++ runes_of_ascii " emoji
+  	{
+metadata 
+`" ++ [233]%N ++ runes_of_ascii "` ,  }, 	 //	t
+u
+    `a\`,
+	}
+	,
+
+    }
+")).
+Eval vm_compute in ("<<<M221>>>" ++ check (runes_of_ascii "packet
+matchKey { match Header as chars
+{ [ """ ++ [233]%N ++ runes_of_ascii "t" ++ [233]%N ++ runes_of_ascii """ ,0 ]	: body
+,
+    [
+    42,10 ]
+    :msg_type
+,
+""" ++ [128512]%N ++ runes_of_ascii """
+: options1 ,7 :
+    roots ""\n"" :
+    // c
+    packetx,	} ,
+    zchar[
+0 ]
+A
+@lengthOf(  int )
+, char[] Header `
+` ,// trailing space 
+repeat
+    float { repeat
+o
+    , // `tick` ""quote"" 'q'
+repeat
+int32 x_y_z `
+` , }	,@tag( 0 ) u64 string_ @calculatedFrom(""`tick`"" ) // " ++ [27880; 37322]%N ++ runes_of_ascii "
+`two words` , calculatedFrom // " ++ [27880; 37322]%N ++ runes_of_ascii "
+{ matchKey
+//
+// packet A { u8 x, }
+, // packet A { u8 x, }
+rootA
+, } ,
+}
+    options // " ++ [128512]%N ++ runes_of_ascii " emoji
+{ chars =	"""" //
+;
+    As = true	; Foo =
+7	; lengthOf =  ""a\\"" }
+
+")).
+Eval vm_compute in ("<<<M1148>>>" ++ check (runes_of_ascii "// packet A { u8 x, }
+packet
+    Foo { }
+    packet i64_ {asx @lengthOf( a1 )`two words` , repeat
+i64_ {char[]u `crlf
+line`,char[
+    10
+    // @lengthOf(
+    ] metadata,
+    //
+    a1  {
+    repeat zchar[
+    1
+    ] len , char[ 00 // packet A { u8 x, }
+]Z9_@calculatedFrom( ""a\\"" ) // " ++ [27880; 37322]%N ++ runes_of_ascii "
+,	zchar[ 7 ] Header
+    @lengthOf(	x ) , repeat//
+pack,// @lengthOf(
+}  , // trailing space 
+}
+    //x
+    ,  match tag as u8x { ""{,}""
+    : zchar ,  1
+: metadata , """ ++ [233]%N ++ runes_of_ascii "t" ++ [233]%N ++ runes_of_ascii """
+    :
+a1 """ ++ [233]%N ++ runes_of_ascii "t" ++ [233]%N ++ runes_of_ascii """ : chars //
+,[ ""a\\""]  :crc	} ,
+    tag@calculatedFrom( """ ++ [128512]%N ++ runes_of_ascii """) , }
+//
+")).
+Eval vm_compute in ("<<<M157>>>" ++ check (runes_of_ascii "root
+packet o { @leftPad (
+    '0'  )repeat uint16 o // `tick` ""quote"" 'q'
+,// `tick` ""quote"" 'q'
+@tag( 1
+    // `tick` ""quote"" 'q'
+    )
+//x
+// " ++ [128512]%N ++ runes_of_ascii " emoji
+@tag( 65535 ) u32 options1 ,@lengthOf( i8i8) @lengthOf(int ) @leftPad// " ++ [27880; 37322]%N ++ runes_of_ascii "
+() char[  42 ] len @calculatedFrom( ""packet"" ) ,
+    u32 Foo @calculatedFrom( ""a\\"") ,
+    } packet a1 {@lengthOf(
+    A /// triple
+)	Foo MetaDataX `it's`, Z9_ metadata
+    //
+    `" ++ [28040; 24687; 31867; 22411]%N ++ runes_of_ascii "` ,
+match MetaDataX
+    as falsey { [ 42
+    ]
+    :body // " ++ [128512]%N ++ runes_of_ascii " emoji
+[""packet""	, 4294967296]
+    :  A} , Z9_ ,}")).
+Eval vm_compute in ("<<<M648>>>" ++ check (runes_of_ascii "MetaData i8i8 { char[0123456789
+    ]
+    body `doc`, // c
+} packet uint8x{pack { char u `crlf
+line`
+, float , zchar[ 007] //	t
+A ,} , char[]
+    /// triple
+    calculatedFrom `
+` , char[
+    42 ] matchKey @calculatedFrom(
+//
+// " ++ [27880; 37322]%N ++ runes_of_ascii "
+""a\\"")`` , }  root  packet int { @rightPad (
+'0'// packet A { u8 x, }
+) Pad  { match zchar as asx {
+    [""a	b"" , 42 ] :Logon//
+} ,
+Packet
+    {
+    zchar[ 4294967296 ]
+    A ,}
+//	t
+//
+, match x as float {  ""x y""	: o
+    // a // b
+    ,
+    1	: calculatedFrom}, } ,}
+//
+")).
+Eval vm_compute in ("<<<M754>>>" ++ check (runes_of_ascii "packet falsey	{ }packet
+i64_ {i64
+metadata @lengthOf(
+    len ) , repeat i16// a // b
+float , } packet Pad
+{ @lengthOf( Logon
+)Packet { string matchKey , zchar[65535] metadata , string
+metadata `" ++ [28040; 24687; 31867; 22411]%N ++ runes_of_ascii "` ,repeat char[ 0123456789 ]
+    rootA ,
+    }, @tag(
+4294967296 ) repeat
+    a1
+    // `tick` ""quote"" 'q'
+    float`// not a comment`	,repeat char[//	t
+3
+]	As`{ , }`
+    ,
+@calculatedFrom(
+    ""packet"" ) match T	as packetx{ ""a\\"" : Packet
+,
+    // a // b
+    } /// triple
+,
+    }")).
+Eval vm_compute in ("<<<M246>>>" ++ check (runes_of_ascii "packet // c
+Z9_ {
+As
+    x
+, @rightPad ( ' ') @lengthOf( Header) @rightPad(  ' '
+)match u as  string_{ ""a	b""
+    : Pad
+    // trailing space 
+    ,1: T , [ """" , 255, ""abc""
+, 7
+    //	t
+    ] :
+BodyLength ,  },match falsey
+as  metadata{ 42: float ,
+    // `tick` ""quote"" 'q'
+    } , match lengthOf
+as As {1
+:
+As, [	"""" ,	""a\\"" ,
+""{,}"" , ""it's"" ,
+    //
+    42,""a\\"" , 0 // trailing space 
+, 3  ]  : f32a, } , // packet A { u8 x, }
+repeat float64 roots ,	}
+")).
+Eval vm_compute in ("<<<M4135>>>" ++ check (runes_of_ascii "MetaData metadata {
+}
+
+packet u {
+    //
+    @lengthOf(T)
+    // packet A { u8 x, }
+    @lengthOf(u)
+    /// triple
+    @leftPad('0')
+    repeat uint8 x_y_z `" ++ [28040; 24687; 31867; 22411]%N ++ runes_of_ascii "`,
 }
 
 root packet A {
-    @calculatedFrom(""x y"")
-    // @lengthOf(
-    string len @lengthOf(metadata),
+    @tag(10)
+    repeat zchar[0] asx `doc`,
+    char[7] float @lengthOf(BodyLength) `crlf
+        line`,
+    zchar[0123456789] u128,
+    @rightPad()
+    repeat zchar[255] Packet ``,
+    BodyLength Pad,
+    @tag(1)
+    zchar[10] float @lengthOf(roots),
 }")).
-Eval vm_compute in ("<<<M691>>>" ++ check (runes_of_ascii "//x
-packet string_ { @calculatedFrom(
-""// no comment"" ) @calculatedFrom( ""abc"" ) @calculatedFrom(	""a	b"" )
-match u8x as u8x { 7 :x
-, [
-    ""packet""]	: chars ,} , } MetaData i8i8 { char[] a1 , crc// trailing space 
-a1 , // trailing space 
-char[
-1 ] // @lengthOf(
-matchKey , // `tick` ""quote"" 'q'
-}
-    options {Logon
-    = ""{,}""	; }// " ++ [27880; 37322]%N ++ runes_of_ascii "
-options {  }
-
-")).
-Eval vm_compute in ("<<<M121>>>" ++ check (runes_of_ascii "root
-    packet stringy{ // trailing space 
-@calculatedFrom(
-""" ++ [28040; 24687]%N ++ runes_of_ascii """ ) repeat
-Foo {float64	i64_
-    @lengthOf(Z9_ ),	}
-    ,	repeat // `tick` ""quote"" 'q'
-lengthOf {
-falsey
-    { uint16 len//x
-,	} , Packet uint8x `a\`,} , @calculatedFrom(""" ++ [128512]%N ++ runes_of_ascii """)  string MetaDataX	`" ++ [233]%N ++ runes_of_ascii "`  ,} packet
-chars { @leftPad ( '0'
-    )i64 trueish
-@lengthOf( Z9_  )
-    ,
-}
-")).
-Eval vm_compute in ("<<<M3830>>>" ++ check (runes_of_ascii "packet  len
-	{
-
-@calculatedFrom( ""x y""
-)
-@tag(3 
-        // packet A { u8 x, }
-	  // `tick` ""quote"" 'q'
-
-	) 
-      //
-  // c
-  @tag(
-	1
-) 
-    /// triple
-    match 
-o 
-as Header
-{
-007
-: BodyLength , 
-""x y""
-:zchar ,[ ""abc""
-
-] 
-:
-    string_  ,
-},  // c
-
-	int32 
-
-    // packet A { u8 x, }
-	// a // b
-	  leftPad
-
-,}	// c
-")).
-Eval vm_compute in ("<<<M1886>>>" ++ check (runes_of_ascii "MetaData
-    u { }  options {
-// c
-// @lengthOf(
-float float = int8 ;rootA =false ; As =	int16 // `tick` ""quote"" 'q'
-repeatCount
-    // trailing space 
-    =
-    int16
-; u8x =
-    //	t
-    '\x00' ; } options	{
-    repeatCount
-= 0
-u128
-    //
-    = false ; i64_
-// trailing space 
-// `tick` ""quote"" 'q'
-= '0' ; //	t
-}
-")).
-Eval vm_compute in ("<<<M1926>>>" ++ check (runes_of_ascii "MetaData
-    u { }  options {
-// c
-// @lengthOf(
-float = int8 ;rootA =false ; As As =	int16 // `tick` ""quote"" 'q'
-repeatCount
-    // trailing space 
-    =
-    int16
-; u8x =
-    //	t
-    '\x00' ; } options	{
-    repeatCount
-= 0
-u128
-    //
-    = false ; i64_
-// trailing space 
-// `tick` ""quote"" 'q'
-= '0' ; //	t
-}
-")).
-Eval vm_compute in ("<<<M2065>>>" ++ check (runes_of_ascii "MetaData
-    u { }  options {
-// c
-// @lengthOf(
-float = int8 ;rootA =false ; ' As =	int16 // `tick` ""quote"" 'q'
-repeatCount
-    // trailing space 
-    =
-    int16
-; u8x =
-    //	t
-    '\x00' ; } options	{
-    repeatCount
-= 0
-u128
-    //
-    = false ; i64_
-// trailing space 
-// `tick` ""quote"" 'q'
-= '0' ; //	t
-}
-")).
-Eval vm_compute in ("<<<M1912>>>" ++ check (runes_of_ascii "MetaData
-    u { }  options {
-// c
-// @lengthOf(
-float = int8 ;rootA false= ; As =	int16 // `tick` ""quote"" 'q'
-repeatCount
-    // trailing space 
-    =
-    int16
-; u8x =
-    //	t
-    '\x00' ; } options	{
-    repeatCount
-= 0
-u128
-    //
-    = false ; i64_
-// trailing space 
-// `tick` ""quote"" 'q'
-= '0' ; //	t
-}
-")).
-Eval vm_compute in ("<<<M2052>>>" ++ check (runes_of_ascii "MetaData
-    u { }  options {
-// c
-// @lengthOf(
-float = int8 ;rootA =false ; As =	int16 // `tick` ""quote"" 'q'
-repeatCount
-    // trailing space 
-    =
-    int16
-; u8x =
-    //	t
-    '\x00' ; } options	{
-    repeatCount
-= 0
-u128
-    //
-    = false ; i64_
-// trailing space 
-// `tick` ""quote"" 'q'
-= '0' ; //	t
-]
-")).
-Eval vm_compute in ("<<<M4100>>>" ++ check (runes_of_ascii "MetaData As {
-    float32 calculatedFrom,
-    BodyLength asx `two words`,
-}
-
-options {
-    f32a = ' ';
-    a1 = '\x00'
-}// trailing space 
-
-MetaData T {
-    charz metadata,
-    lengthOf T `crlf
-    line`,
-    T rootA `
-    `,
-    char[] repeatCount `it's`,
-    stringy rootA,
-    zchar[0123456789] MetaDataX,
-}")).
-Eval vm_compute in ("<<<M1856>>>" ++ check (runes_of_ascii "
-    u { }  options {
-// c
-// @lengthOf(
-float = int8 ;rootA =false ; As =	int16 // `tick` ""quote"" 'q'
-repeatCount
-    // trailing space 
-    =
-    int16
-; u8x =
-    //	t
-    '\x00' ; } options	{
-    repeatCount
-= 0
-u128
-    //
-    = false ; i64_
-// trailing space 
-// `tick` ""quote"" 'q'
-= '0' ; //	t
-}
-")).
-Eval vm_compute in ("<<<M2055>>>" ++ check (runes_of_ascii "MetaData
-    u { }  options {
-// c
-// @lengthOf(
-float = int8 ;rootA =false ; As =	int16 // `tick` ""quote"" 'q'
-repeatCount
-    // trailing space 
-    =
-    int16
-; u8x =
-    //	t
-    '\x00' ; } options	{
-    repeatCount
-= 0
-u128
-    //
-    = false ; i64_
-// trailing space 
-// `tick` ""quote"" 'q")).
-Eval vm_compute in ("<<<M160>>>" ++ check (runes_of_ascii "packet matchKey
-{ // packet A { u8 x, }
-zchar[ 65535
-//	t
-// packet A { u8 x, }
-] Foo @calculatedFrom(
-// " ++ [128512]%N ++ runes_of_ascii " emoji
-// a // b
-""\n"" ) ``, @tag(10 ) repeat
-x Logon`
-` , @calculatedFrom(
-    ""it's"" ) @rightPad (
-) zchar[ 255 ]	lengthOf
-    // @lengthOf(
-    , repeat uint8x`" ++ [233]%N ++ runes_of_ascii "`
-,
-    }
-")).
-Eval vm_compute in ("<<<M217>>>" ++ check (runes_of_ascii "options{ // " ++ [128512]%N ++ runes_of_ascii " emoji
-x =i8 BodyLength	=	'\x00'	;
-options1 // a // b
-=// c
-zchar[
-    42] ; msg_type = ""a	b""  x_y_z =// a // b
-int64
-; } //x
-options
-{ pack =
-""a\\""matchKey  =
-    true Packet =""abc"" //	t
-falsey =
-'\x00'
-; }  root packet charz { body
-    `doc` , } // c")).
-Eval vm_compute in ("<<<M1613>>>" ++ check (runes_of_ascii "packet
-//	t
-// trailing space 
-_x {
-// packet A { u8 x, }
-// c
-char[
-3
-    ] u8x @lengthOf(
-u8x ) , @calculatedFrom(""" ++ [128512]%N ++ runes_of_ascii """ // @lengthOf(
-)
-i16	Foo
-@lengthOf(	string_
-    )`doc`	, repeat	i64 metadata , @lengthOf( @lengthOf( string_
-) i8 // c
-u  `line1
-line2`	,
-}
-")).
-Eval vm_compute in ("<<<M662>>>" ++ check (runes_of_ascii "  packet f32a { } MetaData x {BodyLength zchar , // @lengthOf(
-}  packet metadata{ @tag( 7 ) @lengthOf( uint8x )
-    body{ u8 Z9_ @calculatedFrom( /// triple
-""it's"" ) `u8 x,`
-    // @lengthOf(
-    , }
-, float32 falsey
-@lengthOf( u//	t
-) `line1
-line2` ,}")).
-Eval vm_compute in ("<<<M1633>>>" ++ check (runes_of_ascii "packet
-//	t
-// trailing space 
-_x {
-// packet A { u8 x, }
-// c
-char[
-3
-    ] u8x @lengthOf(
-u8x ) , @calculatedFrom(""" ++ [128512]%N ++ runes_of_ascii """ // @lengthOf(
-)
-i16	Foo
-@lengthOf(	string_
-    )`doc`	, repeat	i64 metadata , @lengthOf( string_
-) i8 // c
-u u  `line1
-line2`	,
-}
-")).
-Eval vm_compute in ("<<<M1509>>>" ++ check (runes_of_ascii "packet
-//	t
-// trailing space 
-_x {
-// packet A { u8 x, }
-// c
-char[
-]
-    3 u8x @lengthOf(
-u8x ) , @calculatedFrom(""" ++ [128512]%N ++ runes_of_ascii """ // @lengthOf(
-)
-i16	Foo
-@lengthOf(	string_
-    )`doc`	, repeat	i64 metadata , @lengthOf( string_
-) i8 // c
-u  `line1
-line2`	,
-}
-")).
-Eval vm_compute in ("<<<M1670>>>" ++ check (runes_of_ascii "packet
-//	t
-// trailing space 
-x" ++ [178]%N ++ runes_of_ascii " {
-// packet A { u8 x, }
-// c
-char[
-3
-    ] u8x @lengthOf(
-u8x ) , @calculatedFrom(""" ++ [128512]%N ++ runes_of_ascii """ // @lengthOf(
-)
-i16	Foo
-@lengthOf(	string_
-    )`doc`	, repeat	i64 metadata , @lengthOf( string_
-) i8 // c
-u  `line1
-line2`	,
-}
-")).
-Eval vm_compute in ("<<<M1557>>>" ++ check (runes_of_ascii "packet
-//	t
-// trailing space 
-_x {
-// packet A { u8 x, }
-// c
-char[
-3
-    ] u8x @lengthOf(
-u8x ) , @calculatedFrom(""" ++ [128512]%N ++ runes_of_ascii """ // @lengthOf(
-)
-	Foo
-@lengthOf(	string_
-    )`doc`	, repeat	i64 metadata , @lengthOf( string_
-) i8 // c
-u  `line1
-line2`	,
-}
-")).
-Eval vm_compute in ("<<<M1213>>>" ++ check (runes_of_ascii "options { string_ = char[] ;
-}
-packet Z9_
-{
-// " ++ [27880; 37322]%N ++ runes_of_ascii "
-// a // b
-@tag( 1 ) matchKey matchKey
-    ,
-}	root packet
+Eval vm_compute in ("<<<M173>>>" ++ check (runes_of_ascii "MetaData T  {
+char[] metadata ,
     // `tick` ""quote"" 'q'
-    Z9_ {	@leftPad
-    ( '\x00' ) @rightPad // " ++ [27880; 37322]%N ++ runes_of_ascii "
-(
-'\x00'// packet A { u8 x, }
+    i8
+Header
+    //	t
+    ,
+u128 chars `a\` , char[
+    42
+] calculatedFrom
+, } // packet A { u8 x, }
+packet stringy {
+    @rightPad( // c
 )
-float64 chars `it's` , }")).
-Eval vm_compute in ("<<<M3859>>>" ++ check (runes_of_ascii "  options
-
-{
-Foo	=
-1
-
-i64_	= char[] 
-        /// triple
-  	;
-string_//
-=uint16 
-;
-
-    chars=
-
-char[] ;	//	t
-  }  root	packet
-msg_type  {body 
-, @calculatedFrom( 	 // " ++ [27880; 37322]%N ++ runes_of_ascii "
-    ""packet"")
-    repeat
-zchar[ 4294967296
-
-]
-u128 
+    //	t
+    string trueish
+`two words`, } MetaData metadata{ zchar[//
+007]x_y_z
+, zchar[ 10 ] u	`// not a comment`
+    , string u8x, char[]repeatCount// " ++ [128512]%N ++ runes_of_ascii " emoji
+, zchar Pad ,u32 f32a
+    `doc`
+, } // `tick` ""quote"" 'q'")).
+Eval vm_compute in ("<<<M438>>>" ++ check (runes_of_ascii "packet Packet {
+@calculatedFrom( ""a	b"" ) int16 int
+    @lengthOf(
+// @lengthOf(
+// packet A { u8 x, }
+rootA ) ,Foo{ repeat string int
+    // `tick` ""quote"" 'q'
+    ,
+    rootA packetx
+    ,match
+    uint8x as Pad{ 1	:
+    // packet A { u8 x, }
+    Foo , 3	:
+chars , 255
+:
+//
+// `tick` ""quote"" 'q'
+charz ""x y""
+: lengthOf , [
+    4294967296 ,	""" ++ [233]%N ++ runes_of_ascii "t" ++ [233]%N ++ runes_of_ascii """//x
+] : crc } //x
+,	} //	t
 ,
+    string
+msg_type , }
 
-} ")).
-Eval vm_compute in ("<<<M1636>>>" ++ check (runes_of_ascii "packet
+")).
+Eval vm_compute in ("<<<M3693>>>" ++ check (runes_of_ascii "root packet x {
+    @calculatedFrom(""a\\"")
+    zchar[42] float @calculatedFrom(""a\""b"") `
+    `,
+}
+
+MetaData o {
+    int8 BodyLength,
+    string len,
+    string len,
+    float falsey,
+    T float,
+}
+
+MetaData pack {
+    /// triple
+    charz o `// not a comment`,
+    float64 f32a `tab	here`,
+    int32 u8x `// not a comment`,
+    char[10] a1,
+    float32 options1,
+}// `tick` ""quote"" 'q'")).
+Eval vm_compute in ("<<<M1269>>>" ++ check (runes_of_ascii "packet BodyLength
+{ @tag( 255 ) match tag as
+//	t
+// " ++ [128512]%N ++ runes_of_ascii " emoji
+x_y_z  {	7:Pad , ""a\""b"" :
+matchKey	, [ // `tick` ""quote"" 'q'
+42 , ""`tick`"" ,
+    //
+    ""// no comment""	, """"
+    // " ++ [128512]%N ++ runes_of_ascii " emoji
+    ,  1
+,
+"""" , 7 , """"
+    // `tick` ""quote"" 'q'
+    ]:
+stringy
+    , } , f64 repeatCount `a\`, }
+    // c
+    packet zchar// `tick` ""quote"" 'q'
+{	i8 _x `tab	here`	, } MetaData x { }
+")).
+Eval vm_compute in ("<<<M1311>>>" ++ check (runes_of_ascii "root packet Header {
+    @lengthOf( stringy ) calculatedFrom @lengthOf(  chars  ) , char[ 255
+    ]
+    // `tick` ""quote"" 'q'
+    metadata``	, u8 MetaDataX `crlf
+line`
+,} options
+{ } options
+{uint8x = 42 ; T
+    = i32;
+    calculatedFrom // `tick` ""quote"" 'q'
+=
+""// no comment""	;
+    u8x =
+0
+    }
+    root packet roots {repeat i64 falsey //x
+,
+}")).
+Eval vm_compute in ("<<<M1131>>>" ++ check (runes_of_ascii "packet
+int // a // b
+{  match pack as charz {10  :// a // b
+i8i8,// @lengthOf(
+10 : MetaDataX , [ 42 ]:options1 , } , repeat uint16 zchar , char[007
+    ] asx ,
+@lengthOf(// " ++ [27880; 37322]%N ++ runes_of_ascii "
+As
+)  @calculatedFrom( ""1"" )
+    lengthOf  @lengthOf(
+BodyLength
+    )`tab	here`
+,char[]T `// not a comment` ,// packet A { u8 x, }
+@leftPad(
+) packetx , }")).
+Eval vm_compute in ("<<<M65>>>" ++ check (runes_of_ascii "  options	{ string_
+=true; } options
+{ T
+= false}
+packet
+u8x { @lengthOf( int
+    //
+    )
+zchar[ 255 ] BodyLength , } // trailing space 
+root
+packet
+    f32a  { }packet roots
+{ Foo
+    , repeat char[ 007 ] Pad
+,repeat  int8
+packetx
+    ,
+    match Z9_ as T	{
+00 :A , ""a\""b"" :
+    falsey  , //
+""CRC32""
+:a1
+,
+    }	, }
+")).
+Eval vm_compute in ("<<<M1993>>>" ++ check (runes_of_ascii "MetaData
+    u { }  options {
+// c
+// @lengthOf(
+float = int8 ;rootA =false ; As =	int16 // `tick` ""quote"" 'q'
+repeatCount
+    // trailing space 
+    =
+    int16
+; u8x =
+    //	t
+    '\x00' ; } options	false
+    repeatCount
+= 0
+u128
+    //
+    = false ; i64_
+// trailing space 
+// `tick` ""quote"" 'q'
+= '0' ; //	t
+}
+")).
+Eval vm_compute in ("<<<M2001>>>" ++ check (runes_of_ascii "MetaData
+    u { }  options {
+// c
+// @lengthOf(
+float = int8 ;rootA =false ; As =	int16 // `tick` ""quote"" 'q'
+repeatCount
+    // trailing space 
+    =
+    int16
+; u8x =
+    //	t
+    '\x00' ; } options	{
+    repeatCount
+= = 0
+u128
+    //
+    = false ; i64_
+// trailing space 
+// `tick` ""quote"" 'q'
+= '0' ; //	t
+}
+")).
+Eval vm_compute in ("<<<M957>>>" ++ check (runes_of_ascii "packet body {
+@rightPad
+    ( ' ' )
+    msg_type{match u as zchar
+{
+""""// c
+:metadata
+, } ,As @calculatedFrom( ""CRC32""
+// " ++ [128512]%N ++ runes_of_ascii " emoji
+// " ++ [27880; 37322]%N ++ runes_of_ascii "
+) ,
+//x
+// @lengthOf(
+}
+, repeat u16 tag
+,
+    repeat MetaDataX ,
+} packet Foo {
+@rightPad() @leftPad( ' '  ) @calculatedFrom( ""\" ++ [233]%N ++ runes_of_ascii """
+    ) i8 i64_ ,
+    repeat uint16 float ,  }")).
+Eval vm_compute in ("<<<M1992>>>" ++ check (runes_of_ascii "MetaData
+    u { }  options {
+// c
+// @lengthOf(
+float = int8 ;rootA =false ; As =	int16 // `tick` ""quote"" 'q'
+repeatCount
+    // trailing space 
+    =
+    int16
+; u8x =
+    //	t
+    '\x00' ; } options	repeatCount
+    {
+= 0
+u128
+    //
+    = false ; i64_
+// trailing space 
+// `tick` ""quote"" 'q'
+= '0' ; //	t
+}
+")).
+Eval vm_compute in ("<<<M1988>>>" ++ check (runes_of_ascii "MetaData
+    u { }  options {
+// c
+// @lengthOf(
+float = int8 ;rootA =false ; As =	int16 // `tick` ""quote"" 'q'
+repeatCount
+    // trailing space 
+    =
+    int16
+; u8x =
+    //	t
+    '\x00' ; } zchar[	{
+    repeatCount
+= 0
+u128
+    //
+    = false ; i64_
+// trailing space 
+// `tick` ""quote"" 'q'
+= '0' ; //	t
+}
+")).
+Eval vm_compute in ("<<<M2020>>>" ++ check (runes_of_ascii "MetaData
+    u { }  options {
+// c
+// @lengthOf(
+float = int8 ;rootA =false ; As =	int16 // `tick` ""quote"" 'q'
+repeatCount
+    // trailing space 
+    =
+    int16
+; u8x =
+    //	t
+    '\x00' ; } options	{
+    repeatCount
+= 0
+u128
+    //
+    =  ; i64_
+// trailing space 
+// `tick` ""quote"" 'q'
+= '0' ; //	t
+}
+")).
+Eval vm_compute in ("<<<M40>>>" ++ check (runes_of_ascii "packet// " ++ [128512]%N ++ runes_of_ascii " emoji
+charz
+    {
+repeat options1 {char x_y_z
+/// triple
+//x
+, T	{ string_ @calculatedFrom(""1"") , } ,
+f64
+    crc ,
+u64 A
+// trailing space 
+/// triple
+@calculatedFrom(""CRC32""	), } ,} MetaData MetaDataX //	t
+{
+}
+root packet
+u128{ string_  {
+    repeat pack {
+As matchKey , } ,} ,
+}
+")).
+Eval vm_compute in ("<<<M445>>>" ++ check (runes_of_ascii "packet  calculatedFrom { @calculatedFrom( ""a	b"" ) T // packet A { u8 x, }
+{ zchar[ 0123456789 ]
+    falsey `say ""hi""`
+, match o as
+    // " ++ [27880; 37322]%N ++ runes_of_ascii "
+    matchKey {
+    [ ""`tick`""	,
+    //
+    ""it's""
+] :int , 1 :	float // a // b
+, } ,string Foo @calculatedFrom( ""a\\""), // `tick` ""quote"" 'q'
+} ,	}
+")).
+Eval vm_compute in ("<<<M4373>>>" ++ check (runes_of_ascii "options {
+    Foo = true;
+}
+
+packet u128 {
+    @calculatedFrom(""x y"")
+    lengthOf @lengthOf(msg_type) `tab	here`,
+    asx x,
+    zchar[10] i64_,
+    repeat body,
+    char[255] asx @calculatedFrom(""" ++ [128512]%N ++ runes_of_ascii """) `crlf
+    line`,
+    u128 string_,
+    int {
+        zchar[7] _x,
+    },
+}")).
+Eval vm_compute in ("<<<M72>>>" ++ check (runes_of_ascii "MetaData len //	t
+{ f64 calculatedFrom , x_y_z	x
+,} packet repeatCount { @lengthOf(pack ) match
+x_y_z as o // " ++ [27880; 37322]%N ++ runes_of_ascii "
+{ 7:
+Header
+// `tick` ""quote"" 'q'
+// a // b
+} , } options { lengthOf  = true; }
+packet  leftPad
+    {
+    MetaDataX @lengthOf( T ) `two words` ,
+    }")).
+Eval vm_compute in ("<<<M3604>>>" ++ check (runes_of_ascii "packet P1 {
+    u8 a,
+}
+packet P2 {
+    P1,
+}
+packet P3 {
+    P2,
+    P1,
+}
+packet P4 {
+    repeat P3,
+    P2,
+}
+root packet P5 {
+    P4,
+    P3,
+    P1,
+    u8 K,
+    match K as Body {
+        4 : P4,
+        3 : P3,
+        2 : P2,
+        1 : P1,
+    },
+}
+")).
+Eval vm_compute in ("<<<M1493>>>" ++ check (runes_of_ascii "packet
+//	t
+// trailing space 
+_x _x {
+// packet A { u8 x, }
+// c
+char[
+3
+    ] u8x @lengthOf(
+u8x ) , @calculatedFrom(""" ++ [128512]%N ++ runes_of_ascii """ // @lengthOf(
+)
+i16	Foo
+@lengthOf(	string_
+    )`doc`	, repeat	i64 metadata , @lengthOf( string_
+) i8 // c
+u  `line1
+line2`	,
+}
+")).
+Eval vm_compute in ("<<<M1505>>>" ++ check (runes_of_ascii "packet
+//	t
+// trailing space 
+_x {
+// packet A { u8 x, }
+// c
+uint16
+3
+    ] u8x @lengthOf(
+u8x ) , @calculatedFrom(""" ++ [128512]%N ++ runes_of_ascii """ // @lengthOf(
+)
+i16	Foo
+@lengthOf(	string_
+    )`doc`	, repeat	i64 metadata , @lengthOf( string_
+) i8 // c
+u  `line1
+line2`	,
+}
+")).
+Eval vm_compute in ("<<<M1559>>>" ++ check (runes_of_ascii "packet
+//	t
+// trailing space 
+_x {
+// packet A { u8 x, }
+// c
+char[
+3
+    ] u8x @lengthOf(
+u8x ) , @calculatedFrom(""" ++ [128512]%N ++ runes_of_ascii """ // @lengthOf(
+)
+Foo	i16
+@lengthOf(	string_
+    )`doc`	, repeat	i64 metadata , @lengthOf( string_
+) i8 // c
+u  `line1
+line2`	,
+}
+")).
+Eval vm_compute in ("<<<M1552>>>" ++ check (runes_of_ascii "packet
+//	t
+// trailing space 
+_x {
+// packet A { u8 x, }
+// c
+char[
+3
+    ] u8x @lengthOf(
+u8x ) , @calculatedFrom(""" ++ [128512]%N ++ runes_of_ascii """ // @lengthOf(
+
+i16	Foo
+@lengthOf(	string_
+    )`doc`	, repeat	i64 metadata , @lengthOf( string_
+) i8 // c
+u  `line1
+line2`	,
+}
+")).
+Eval vm_compute in ("<<<M1605>>>" ++ check (runes_of_ascii "packet
 //	t
 // trailing space 
 _x {
@@ -1922,46 +1869,84 @@ u8x ) , @calculatedFrom(""" ++ [128512]%N ++ runes_of_ascii """ // @lengthOf(
 )
 i16	Foo
 @lengthOf(	string_
-    )`doc`	, repeat	i64 metadata , @lengthOf( string_
-) i8")).
-Eval vm_compute in ("<<<M1371>>>" ++ check (runes_of_ascii "
-packet  _x {	repeat
-    // packet A { u8 x, }
-    A{
-    int64 uint8x `tab	here` ,
+    )`doc`	, repeat	i64 ' ' , @lengthOf( string_
+) i8 // c
+u  `line1
+line2`	,
 }
-    , } packet Pad  { @tag(	65535
-)string _x //x
-@lengthOf( asx)  , @rightPad ( '0'	)u8 MetaDataX , u64 chars,
-    // c
-    }
-
 ")).
-Eval vm_compute in ("<<<M1777>>>" ++ check (runes_of_ascii "options { trueish = ""`tick`"" ; string_= """ ++ [233]%N ++ runes_of_ascii "t" ++ [233]%N ++ runes_of_ascii """
+Eval vm_compute in ("<<<M923>>>" ++ check (runes_of_ascii "packet options1 { @leftPad
+    (
+    '0' )
+repeat char[1 ] // " ++ [27880; 37322]%N ++ runes_of_ascii "
+roots  `
+` , i32 A`
+`, repeat
+    char[ 3] stringy // `tick` ""quote"" 'q'
+, repeat	f64
+    Z9_
+`tab	here`, }
+    packet T	{
+    @tag( 00	)repeat float
+`say ""hi""`,} /// triple")).
+Eval vm_compute in ("<<<M3933>>>" ++ check (runes_of_ascii "packet metadata {
+    @lengthOf(i8i8)
+    match BodyLength as Foo {
+        3 : len,
+    },
+    body @lengthOf(roots),
+    f32a x,
+}
+
+root packet i8i8 {
+    zchar[10] i64_ @calculatedFrom(""a\\"") `
+        `,
+}// packet A { u8 x, }")).
+Eval vm_compute in ("<<<M428>>>" ++ check (runes_of_ascii "root	packet  As { zchar[0123456789] MetaDataX ,
+    zchar[10 ] falsey
+    , @calculatedFrom( """ ++ [128512]%N ++ runes_of_ascii """ )pack ,	A
+{repeat u8x tag ,  int64 T @lengthOf( Packet
+) ,	x Logon
+    //x
+    , options1 @calculatedFrom( ""a	b"") , } , } 	 ")).
+Eval vm_compute in ("<<<M4124>>>" ++ check (runes_of_ascii "packet _x {
+    // packet A { u8 x, }
+    // c
+    char[3] u8x @lengthOf(u8x),
+    @calculatedFrom(""" ++ [128512]%N ++ runes_of_ascii """)
+    i16 Foo @lengthOf(string_) `doc`,
+    repeat metadata,
+    @lengthOf(string_)
+    i8 u `line1
+    line2`,
+}")).
+Eval vm_compute in ("<<<M872>>>" ++ check (runes_of_ascii "
+options
+    // @lengthOf(
+    {
+    } root packet
+    // c
+    falsey {}MetaData _x {}
+packet
+// packet A { u8 x, }
+// trailing space 
+o
+    // " ++ [128512]%N ++ runes_of_ascii " emoji
+    {falsey , @tag(3
+) // `tick` ""quote"" 'q'
+uint8 Foo,}")).
+Eval vm_compute in ("<<<M1704>>>" ++ check (runes_of_ascii "options { trueish = ""`tick`"" ; @lengthOf(= """ ++ [233]%N ++ runes_of_ascii "t" ++ [233]%N ++ runes_of_ascii """
     // c
     } root
     packet body { stringy @calculatedFrom(
 ""a	b"" ) `line1
 line2` , }
-packet packet Logon {
+packet Logon {
     @leftPad(
     ' ' ) //	t
 u16 string_ `u8 x,` ,
 }
 ")).
-Eval vm_compute in ("<<<M456>>>" ++ check (runes_of_ascii "MetaData Foo
-{
-zchar[ 10 ]
-i8i8 //	t
-,
-    zchar[	1 ]  zchar  ,  zchar lengthOf, string//
-metadata `tab	here` , matchKey  x// " ++ [128512]%N ++ runes_of_ascii " emoji
-, /// triple
-f32
-    // @lengthOf(
-    leftPad `it's` ,
-    // c
-    }")).
 Eval vm_compute in ("<<<M1754>>>" ++ check (runes_of_ascii "options { trueish = ""`tick`"" ; string_= """ ++ [233]%N ++ runes_of_ascii "t" ++ [233]%N ++ runes_of_ascii """
     // c
     } root
@@ -1986,117 +1971,84 @@ packet Logon {
 u16 string_ `u8 x,` ,
 }
 ")).
-Eval vm_compute in ("<<<M1771>>>" ++ check (runes_of_ascii "options { trueish = ""`tick`"" ; string_= """ ++ [233]%N ++ runes_of_ascii "t" ++ [233]%N ++ runes_of_ascii """
+Eval vm_compute in ("<<<M1766>>>" ++ check (runes_of_ascii "options { trueish = ""`tick`"" ; string_= """ ++ [233]%N ++ runes_of_ascii "t" ++ [233]%N ++ runes_of_ascii """
     // c
     } root
     packet body { stringy @calculatedFrom(
 ""a	b"" ) `line1
-line2` , 
+line2`  }
 packet Logon {
     @leftPad(
     ' ' ) //	t
 u16 string_ `u8 x,` ,
 }
 ")).
-Eval vm_compute in ("<<<M1675>>>" ++ check (runes_of_ascii "[ { trueish = ""`tick`"" ; string_= """ ++ [233]%N ++ runes_of_ascii "t" ++ [233]%N ++ runes_of_ascii """
-    // c
-    } root
-    packet body { stringy @calculatedFrom(
-""a	b"" ) `line1
-line2` , }
-packet Logon {
-    @leftPad(
-    ' ' ) //	t
-u16 string_ `u8 x,` ,
-}
+Eval vm_compute in ("<<<M625>>>" ++ check (runes_of_ascii "
+root	packet i64_ { roots a1	, @calculatedFrom(""`tick`"" )
+i64 //
+float `it's` ,@calculatedFrom(
+""\n"" ) @calculatedFrom( ""1"" ) @tag(
+    10 )	f64
+trueish
+`" ++ [28040; 24687; 31867; 22411]%N ++ runes_of_ascii "`	, trueish @calculatedFrom( ""\n"" ) ,}")).
+Eval vm_compute in ("<<<M1115>>>" ++ check (runes_of_ascii "options { i64_ =
+true} root packet // c
+repeatCount { u32 Foo //	t
+, int8	rootA ,  zchar[
+0
+]
+MetaDataX ,	@calculatedFrom( ""a\""b"" ) char  o, // " ++ [128512]%N ++ runes_of_ascii " emoji
+}packet i64_ { } //
+packet Foo
+{ }
 ")).
-Eval vm_compute in ("<<<M4004>>>" ++ check (runes_of_ascii "  packet
-Pad 	 // `tick` ""quote"" 'q'
-
-	{ }
-root packet
-
-    f32a
-
-    {// c
-		@calculatedFrom( ""it's"")@tag(
-	255
-)match  roots
-as trueish
-{	7 :tag ,	} , repeat zchar[0
-]  repeatCount  ,}
-")).
-Eval vm_compute in ("<<<M138>>>" ++ check (runes_of_ascii "options
-{ MetaDataX=""\n""
-    /// triple
-    stringy = 4294967296 ; Packet=
-    false	; As = ""a\\"" /// triple
-; stringy = ' ';} options {
-}
-    MetaData roots {
-stringy MetaDataX
-    , }")).
-Eval vm_compute in ("<<<M591>>>" ++ check (runes_of_ascii "options { packetx =' '
-}root	packet i64_ {string // trailing space 
-Foo , @tag(// " ++ [27880; 37322]%N ++ runes_of_ascii "
-3	) u128 @calculatedFrom( ""\" ++ [233]%N ++ runes_of_ascii """ )	`
-` , repeat char[//
-00  ] Logon ,repeat crc lengthOf`a\` , }
-")).
-Eval vm_compute in ("<<<M4363>>>" ++ check (runes_of_ascii "root
-    packet
-
-    // c
-
-matchKey	{  zchar[
-
-    3 ]pack
-	@calculatedFrom(
-
-    ""a	b""  )
-
-`doc` 
-,
-
-} options	{
-
-    }
-	MetaData  A
-
-    { int8
-	msg_type
-
-    ,}
-")).
-Eval vm_compute in ("<<<M249>>>" ++ check (runes_of_ascii "
-root packet /// triple
-Foo { int32 tag
-    `doc` , char[0
-    ]
-    u8x`u8 x,`
-, charz charz
-    , @rightPad(' ')@tag( 3 ) @rightPad	('0' )
-repeat
-int16	float ,}
-")).
-Eval vm_compute in ("<<<M4412>>>" ++ check (runes_of_ascii "MetaData crc {
-    i64 matchKey,
-    _x msg_type,
-    zchar zchar,
-    MetaDataX matchKey `a\`,
-    u32 Header,
-}
-
-MetaData _x {
-}
-
-root packet calculatedFrom {
+Eval vm_compute in ("<<<M506>>>" ++ check (runes_of_ascii "MetaData metadata { //	t
+uint8x pack , a1
+f32a , zchar a1 , rootA Header ,
+    char[  42
+    ]	string_,
+    asx charz `crlf
+line`
+    // @lengthOf(
+    , } options /// triple
+{
+    } 	 ")).
+Eval vm_compute in ("<<<M1185>>>" ++ check (runes_of_ascii "  packet zchar { @calculatedFrom( ""// no comment""
+)i32
+//x
+//
+x_y_z , }options {int = i8 ; MetaDataX
+=
+// trailing space 
+// c
+char[] ; Logon
+    =false; roots= 0//
+Pad
+=
+false ;
 }")).
-Eval vm_compute in ("<<<M2107>>>" ++ check (runes_of_ascii "options{
+Eval vm_compute in ("<<<M4193>>>" ++ check (runes_of_ascii "packet A {
+    u8 a,
+}
+
+packet B {
+    u16 b,
+}
+
+root packet P {
+    u8 K1,
+    u8 K2,
+    match K1 as M1 {
+        1 : A,
+    },
+    match K2 as M2 {
+        1 : B,
+    },
+}")).
+Eval vm_compute in ("<<<M2083>>>" ++ check (runes_of_ascii "options@calculatedFrom(
 _x
 = true
-} `line1
-line2`
+} options
 { o	= /// triple
 false
     ; chars
@@ -2106,36 +2058,55 @@ false
 {	chars
     // a // b
     ,}")).
-Eval vm_compute in ("<<<M2165>>>" ++ check (runes_of_ascii "options{
+Eval vm_compute in ("<<<M4303>>>" ++ check (runes_of_ascii "packet A {
+    match k as n {
+        [
+            ""a"", 22, ""c c"", 4, ""e"",
+            66, ""g"", 8, ""i"", 10,
+            ""k""
+        ] : B,
+        2 : C,
+    },
+}")).
+Eval vm_compute in ("<<<M2160>>>" ++ check (runes_of_ascii "options{
 _x
 = true
 } options
 { o	= /// triple
 false
     ; chars
-= ""\n"" } root packet	Pad Pad
+= ""\n"" } root packet packet	Pad
 /// triple
 // packet A { u8 x, }
 {	chars
     // a // b
     ,}")).
-Eval vm_compute in ("<<<M304>>>" ++ check (runes_of_ascii "  packet
-    Packet { i8 MetaDataX , }
-    root packet
-    a1
-{ rootA @lengthOf( uint8x )
-    ,
-    repeatCount
-{
-char[]u , u16
-msg_type
-`a\` ,
-    }
-, }
-")).
-Eval vm_compute in ("<<<M2402>>>" ++ check (runes_of_ascii "// c
-packet x { @lengthOf( metadata ) lengthOf repeat
+Eval vm_compute in ("<<<M4499>>>" ++ check (runes_of_ascii "// top
+MetaData float {
+    // c2
+    float64 charz `
+    `,// c6
+}// c7
+
+root packet chars {
+    // c11
+    @rightPad('0')
+    // c15
+    Foo,// c17
+}// c18")).
+Eval vm_compute in ("<<<M2364>>>" ++ check (runes_of_ascii "// c
+packet x { @lengthOf( metadata ) repeat lengthOf
 ,a1{
+trueish	u8// c
+repeat//	t
+MetaDataX , } , zchar[
+    42	] rootA // `tick` ""quote"" 'q'
+,
+    }
+")).
+Eval vm_compute in ("<<<M2363>>>" ++ check (runes_of_ascii "// c
+packet x { @lengthOf( metadata ) repeat lengthOf
+a1,{
 trueish	,// c
 repeat//	t
 MetaDataX , } , zchar[
@@ -2143,34 +2114,31 @@ MetaDataX , } , zchar[
 ,
     }
 ")).
-Eval vm_compute in ("<<<M1228>>>" ++ check (runes_of_ascii "// packet A { u8 x, }
-options { matchKey =	true ; } MetaData int {uint16
-    packetx`tab	here` ,	}
-options/// triple
-{ msg_type = """"  ; } // @lengthOf(")).
-Eval vm_compute in ("<<<M1321>>>" ++ check (runes_of_ascii "  options
-{ Pad =  zchar[ 0 ] ;
-    tag=char[ 4294967296
-    ] ; u128=	false ; } MetaData repeatCount
-    {
-u16 u128, }  options {
-leftPad
-    = '0'; }")).
-Eval vm_compute in ("<<<M2162>>>" ++ check (runes_of_ascii "options{
-_x
+Eval vm_compute in ("<<<M2416>>>" ++ check (runes_of_ascii "// c
+packet x { @lengthOf( metadata ) repeat lengthOf
+,a1
+trueish	,// c
+repeat//	t
+MetaDataX , } , zchar[
+    42	] rootA // `tick` ""quote"" 'q'
+,
+    }
+")).
+Eval vm_compute in ("<<<M2206>>>" ++ check (runes_of_ascii "options{
+x" ++ [178]%N ++ runes_of_ascii "
 = true
 } options
 { o	= /// triple
 false
     ; chars
-= ""\n"" } root i16	Pad
+= ""\n"" } root packet	Pad
 /// triple
 // packet A { u8 x, }
 {	chars
     // a // b
     ,}")).
-Eval vm_compute in ("<<<M2174>>>" ++ check (runes_of_ascii "options{
-_x
+Eval vm_compute in ("<<<M2084>>>" ++ check (runes_of_ascii "options{
+
 = true
 } options
 { o	= /// triple
@@ -2179,338 +2147,412 @@ false
 = ""\n"" } root packet	Pad
 /// triple
 // packet A { u8 x, }
-{	
+{	chars
     // a // b
     ,}")).
-Eval vm_compute in ("<<<M4194>>>" ++ check (runes_of_ascii "packet A {
+Eval vm_compute in ("<<<M3544>>>" ++ check (runes_of_ascii "packet B
+
+{
+	u8
+a
+, }
+    root
+	packet
+    P {u8
+K
+
+    ,u8
+L
+    @lengthOf( Body
+) ,	match
+K
+as
+Body {	1
+
+    :
+	B
+
+    ,	}
+
+    ,
+}
+")).
+Eval vm_compute in ("<<<M2411>>>" ++ check (runes_of_ascii "// c
+packet x { @lengthOf( metadata ) repeat lengthOf
+,a1{
+trueish	,// c
+repeat//	t
+ , } , zchar[
+    42	] rootA // `tick` ""quote"" 'q'
+,
+    }
+")).
+Eval vm_compute in ("<<<M4257>>>" ++ check (runes_of_ascii "packet  A {
+Inner  { match  k 
+as
+    n
+
+    { [
+	1 , 22
+,007 ,
+
+4  ,
+
+5
+,
+66
+,	7
+,	8
+
+,  9
+
+    , 10,
+	11
+	,12  ]:B	,} ,
+	},
+
+    }
+")).
+Eval vm_compute in ("<<<M3966>>>" ++ check (runes_of_ascii "packet A {
     match k as n {
         [
-            1, 007, 5, 7, 9,
-            ""bb"", ""d"", ""f"", ""h"", ""j""
+            1, ""bb"", 007, ""d"", 5,
+            ""f"", 7, ""h""
         ] : B,
         2 : C,
     },
 }")).
-Eval vm_compute in ("<<<M1005>>>" ++ check (runes_of_ascii "root  packet
-    leftPad { int64 BodyLength `// not a comment` ,	@tag(0 ) @leftPad( ) @tag( 255
-    )
-repeat Header // @lengthOf(
-, } // c")).
-Eval vm_compute in ("<<<M4466>>>" ++ check (runes_of_ascii "  packet
-    A {match k as
-	n{	[ 
-""a"" ,  ""bb"",  007 
-,
-	""d"" , ""e""	,	66 
-,
-""g""
-,
+Eval vm_compute in ("<<<M3858>>>" ++ check (runes_of_ascii "
+// top
+		root 
+// c0
+	  packet
 
-""h""  ,
-	9 
-,
-    ""j"" ]
-    :
-B 
-2
-    : C
-    }	,}
-")).
-Eval vm_compute in ("<<<M443>>>" ++ check (runes_of_ascii "packet  T {
-@lengthOf(// trailing space 
-matchKey // packet A { u8 x, }
-)
-match
-u as crc { [ ""it's"",""CRC32"" ,
-3 ]:Z9_, } , }
+// c1
 
-")).
-Eval vm_compute in ("<<<M1399>>>" ++ check (runes_of_ascii "
-packet packet
-    falsey { Header@calculatedFrom(""packet""  ) , char[
-    0123456789 ] packetx
-    , } // `tick` ""quote"" 'q'")).
-Eval vm_compute in ("<<<M3690>>>" ++ check (runes_of_ascii "packet B {
-    u8 a,
+u128 
+	    // c2
+	{ 
+// c3
+chars
+    // c4
+`it's` 
+// c5
+	,
+
+// c6
+    	}
+    // c7")).
+Eval vm_compute in ("<<<M4184>>>" ++ check (runes_of_ascii "packet rootA {
 }
 
-root packet P {
-    u8 K,
-    match K as Body {
-        1 : B,
-    },
-    u16 L @lengthOf(Body),
-}")).
-Eval vm_compute in ("<<<M3334>>>" ++ check (runes_of_ascii "root packet matchKey { zchar[ 3 ] pack @calculatedFrom( ""a	b"" ) `doc` // c
-, } options { } MetaData A { int8 msg_type , }")).
-Eval vm_compute in ("<<<M351>>>" ++ check (runes_of_ascii "packet lengthOf
-    { @tag(007 )trueish
-    // c
-    {
-    repeat string asx,
-} , } options
-    {roots=
-    ""x y""	; }
-")).
-Eval vm_compute in ("<<<M1400>>>" ++ check (runes_of_ascii "
-falsey
-    packet { Header@calculatedFrom(""packet""  ) , char[
-    0123456789 ] packetx
-    , } // `tick` ""quote"" 'q'")).
-Eval vm_compute in ("<<<M1462>>>" ++ check (runes_of_ascii "
-packet
-    falsey { Header@calculatedFrom(""packet""  ) , char[
-    0123456789 ] packetx
-    ,  // `tick` ""quote"" 'q'")).
-Eval vm_compute in ("<<<M1437>>>" ++ check (runes_of_ascii "
-packet
-    falsey { Header@calculatedFrom(""packet""  ) , 
-    0123456789 ] packetx
-    , } // `tick` ""quote"" 'q'")).
-Eval vm_compute in ("<<<M2187>>>" ++ check (runes_of_ascii "options{
-_x
-= true
-} options
-{ o	= /// triple
-false
-    ; chars
-= ""\n"" } root packet	Pad
+// `tick` ""quote"" 'q'
 /// triple
-// packe")).
-Eval vm_compute in ("<<<M2985>>>" ++ check (runes_of_ascii "packet A {
-  match k as n {
-    [""a"", ""bb"", 007, ""d"", ""e"", 66, ""g"", ""h"", 9, ""j"", ""k""] : B,
-    2 : C
-  },
-}")).
-Eval vm_compute in ("<<<M2981>>>" ++ check (runes_of_ascii "packet A {
-  match k as n {
-    [""a"", 22, ""c c"", 4, ""e"", 66, ""g"", 8, ""i"", 10, ""k""] : B,
-    2 : C
-  },
-}")).
-Eval vm_compute in ("<<<M2952>>>" ++ check (runes_of_ascii "packet A {
-  match k as n {
-    [""a"", ""bb"", ""c c"", ""d"", ""e"", ""f"", ""g"", ""h"", ""i""] : B
-    2 : C
-  },
-}")).
-Eval vm_compute in ("<<<M3535>>>" ++ check (runes_of_ascii "  packet
-    Inner
-
-    {	u8
-
-    a
-
-    ,  }	root packet
-
-P
-{ Inner	ref_obj ,
-	u8
-
-x
-, }
-")).
-Eval vm_compute in ("<<<M4380>>>" ++ check (runes_of_ascii "MetaData u128 {
-    string falsey `u8 x,`,
-    trueish roots,
-}
-
 options {
-    msg_type = """ ++ [128512]%N ++ runes_of_ascii """;
-}")).
-Eval vm_compute in ("<<<M2947>>>" ++ check (runes_of_ascii "packet A {
-  match k as n {
-    [""a"", ""bb"", 007, ""d"", ""e"", 66, ""g"", ""h""] : B
-    2 : C
-  },
-}")).
-Eval vm_compute in ("<<<M4291>>>" ++ check (runes_of_ascii "packet A {
-    u32 crc @calculatedFrom(""\
-    ""),
-    @calculatedFrom(""\
-    "")
-    u8 y,
-}")).
-Eval vm_compute in ("<<<M3270>>>" ++ check (runes_of_ascii "MetaData
-// c
-float { float64 charz `
-` , } root packet chars { @rightPad ( '0' ) Foo , }")).
-Eval vm_compute in ("<<<M3302>>>" ++ check (runes_of_ascii "MetaData float { float64 charz `
-` , } root packet chars { @rightPad ( '0' ) Foo
-// c
-, }")).
-Eval vm_compute in ("<<<M3513>>>" ++ check (runes_of_ascii "packet chars { } packet MetaDataX { @tag( 42 ) i16 string_ , repeat x // c
-`say ""hi""` , }")).
-Eval vm_compute in ("<<<M794>>>" ++ check (runes_of_ascii "packet MetaDataX
-{ char[]
-len , // a // b
-float64 len
-@calculatedFrom( ""packet"" )
-, }
-")).
-Eval vm_compute in ("<<<M817>>>" ++ check (runes_of_ascii "  packet
-    stringy  {
-@lengthOf(crc
-) string repeatCount @calculatedFrom(""{,}"" )
-, }")).
-Eval vm_compute in ("<<<M3220>>>" ++ check (runes_of_ascii "packet metadata { Logon
-// c
-{ A `" ++ [28040; 24687; 31867; 22411]%N ++ runes_of_ascii "` , tag o , } , zchar len `// not a comment` , }")).
-Eval vm_compute in ("<<<M4028>>>" ++ check (runes_of_ascii "
+    stringy = 0123456789;
+    T = 42;
+    string_ = ""a\""b"";
+}
+//")).
+Eval vm_compute in ("<<<M1483>>>" ++ check (runes_of_ascii "
 packet
-    A
+    falsey { Header@calculatedFrom(""packet""  ) @tag , char[
+    0123456789 ] packetx
+    , } // `tick` ""quote"" 'q'")).
+Eval vm_compute in ("<<<M3328>>>" ++ check (runes_of_ascii "root packet matchKey { zchar[ 3 ] pack @calculatedFrom( // c
+""a	b"" ) `doc` , } options { } MetaData A { int8 msg_type , }")).
+Eval vm_compute in ("<<<M4119>>>" ++ check (runes_of_ascii "
+
+  packet chars {
+}
+packet
+MetaDataX{ @tag(  42 
+      // c
+    	)
+
+i16
+string_ 
+,
+
+    repeat
+    x  `say ""hi""`
+, }")).
+Eval vm_compute in ("<<<M1482>>>" ++ check (runes_of_ascii "
+packet
+    falsey { Header@calculatedFrom(""packet""  ) , char[
+    0123456789 ] packetx
+  #  , } // `tick` ""quote"" 'q'")).
+Eval vm_compute in ("<<<M3814>>>" ++ check (runes_of_ascii "
+
+  packet falsey
 
 {
+Header  @calculatedFrom(	""packet""	)
+, char[
+0123456789 ]  packetx, } // `tick` ""quote"" 'q'#
+")).
+Eval vm_compute in ("<<<M4190>>>" ++ check (runes_of_ascii "
 
-    Inner{
-
-    u8  x `
-x`,Deep{u8
-
-    y
+  packet 
+A  {	u16 len  @lengthOf( 
+body
+	)
 
 `
-x`,
+` ,
 
-}  ,
+u32 
+crc @calculatedFrom(""CRC32"" )
+
+`
+` 
+,  string
+body
+
+, }")).
+Eval vm_compute in ("<<<M904>>>" ++ check (runes_of_ascii "packet uint8x {
+    repeat // c
+repeatCount { Packet
+@calculatedFrom( ""packet"" ) , } , // packet A { u8 x, }
+}")).
+Eval vm_compute in ("<<<M2329>>>" ++ check (runes_of_ascii "// c
+packet x { @lengthOf( metadata ) repeat lengthOf
+,a1{
+trueish	,// c
+repeat//	t
+MetaDataX , } , zchar[")).
+Eval vm_compute in ("<<<M3723>>>" ++ check (runes_of_ascii "MetaData float {
+    float64 charz `
+        `,
 }
 
-, }
-")).
-Eval vm_compute in ("<<<M3440>>>" ++ check (runes_of_ascii "packet o { repeat Logon uint8x
 // c
-, } options { asx = zchar[ 3 ] stringy = '\x00' }")).
-Eval vm_compute in ("<<<M2920>>>" ++ check (runes_of_ascii "packet A {
+root packet chars {
+    @rightPad('0')
+    Foo,
+}")).
+Eval vm_compute in ("<<<M4238>>>" ++ check (runes_of_ascii "packet chars {
+}
+
+packet MetaDataX {
+    @tag(42)
+    // c
+    i16 string_,
+    repeat x `say ""hi""`,
+}")).
+Eval vm_compute in ("<<<M4058>>>" ++ check (runes_of_ascii "
+
+  /// triple
+    options { Z9_= 007 ;
+    // a // b
+
+  //
+Pad
+    = 0123456789	u
+    =
+""CRC32"" 
+} ")).
+Eval vm_compute in ("<<<M2984>>>" ++ check (runes_of_ascii "packet A {
   match k as n {
-    [""a"", ""bb"", 007, ""d"", ""e"", 66] : B,
+    [1, 22, ""c c"", 4, 5, ""f"", 7, 8, ""i"", 10, 11] : B
     2 : C
   },
 }")).
-Eval vm_compute in ("<<<M496>>>" ++ check (runes_of_ascii "
-options { repeatCount = ""a	b"" ;As = ' '
-    ;
-    len= true ;string_ = int16 ; }
-")).
-Eval vm_compute in ("<<<M3417>>>" ++ check (runes_of_ascii "MetaData body { i64 pack `it's` , } packet stringy { int16
+Eval vm_compute in ("<<<M2222>>>" ++ check (runes_of_ascii "options
+{ } options options { BodyLength= u16 Header= f64 ; u128 =
+    true
+    ; } // a // b")).
+Eval vm_compute in ("<<<M1466>>>" ++ check (runes_of_ascii "
+packet
+    falsey { Header@calculatedFrom(""packet""  ) , char[
+    0123456789 ] packetx
+    ")).
+Eval vm_compute in ("<<<M2257>>>" ++ check (runes_of_ascii "options
+{ } options { BodyLength= u16 Header= f64 f64 ; u128 =
+    true
+    ; } // a // b")).
+Eval vm_compute in ("<<<M3276>>>" ++ check (runes_of_ascii "MetaData float { float64
 // c
-calculatedFrom , }")).
-Eval vm_compute in ("<<<M4478>>>" ++ check (runes_of_ascii "root packet len {
-    char[1] Foo @calculatedFrom(""abc""),// `tick` ""quote"" 'q'
+charz `
+` , } root packet chars { @rightPad ( '0' ) Foo , }")).
+Eval vm_compute in ("<<<M3487>>>" ++ check (runes_of_ascii "packet chars // c
+{ } packet MetaDataX { @tag( 42 ) i16 string_ , repeat x `say ""hi""` , }")).
+Eval vm_compute in ("<<<M3775>>>" ++ check (runes_of_ascii "packet A { 
+match
+
+k
+as
+
+n
+{
+
+    [  1
+, 22 , ""c c""	, 4  ]
+
+    :
+B
+	2  :	C	}
+,
+}
+
+")).
+Eval vm_compute in ("<<<M2253>>>" ++ check (runes_of_ascii "options
+{ } options { BodyLength= u16 Header f64 = ; u128 =
+    true
+    ; } // a // b")).
+Eval vm_compute in ("<<<M2210>>>" ++ check (runes_of_ascii "{
+options } options { BodyLength= u16 Header= f64 ; u128 =
+    true
+    ; } // a // b")).
+Eval vm_compute in ("<<<M3227>>>" ++ check (runes_of_ascii "packet metadata { Logon { A `" ++ [28040; 24687; 31867; 22411]%N ++ runes_of_ascii "` , // c
+tag o , } , zchar len `// not a comment` , }")).
+Eval vm_compute in ("<<<M2244>>>" ++ check (runes_of_ascii "options
+{ } options { BodyLength= as Header= f64 ; u128 =
+    true
+    ; } // a // b")).
+Eval vm_compute in ("<<<M3450>>>" ++ check (runes_of_ascii "packet o { repeat Logon uint8x , } options { asx
+// c
+= zchar[ 3 ] stringy = '\x00' }")).
+Eval vm_compute in ("<<<M4472>>>" ++ check (runes_of_ascii "packet A {
+    match k as n {
+        [1, 22, ""c c"", 4] : B,
+        2 : C,
+    },
 }")).
+Eval vm_compute in ("<<<M3392>>>" ++ check (runes_of_ascii "// c
+MetaData body { i64 pack `it's` , } packet stringy { int16 calculatedFrom , }")).
+Eval vm_compute in ("<<<M4481>>>" ++ check (runes_of_ascii "
+MetaData body{ 
+string asx, asx 	 // a // b
+int , u128 a1
+	,
+    int32
+	len , }
+")).
+Eval vm_compute in ("<<<M834>>>" ++ check (runes_of_ascii "  packet //	t
+crc {i32 Z9_
+// packet A { u8 x, }
+// " ++ [27880; 37322]%N ++ runes_of_ascii "
+@lengthOf( Pad ) ``, }
+")).
 Eval vm_compute in ("<<<M460>>>" ++ check (runes_of_ascii "root packet packetx
 {  zchar[4294967296 ] uint8x@lengthOf( uint8x	) ,
     }
 ")).
-Eval vm_compute in ("<<<M63>>>" ++ check (runes_of_ascii "MetaData
-    Packet { string Logon `" ++ [233]%N ++ runes_of_ascii "`
-,
-    int8
-    _x
-//	t
-// " ++ [27880; 37322]%N ++ runes_of_ascii "
-,
+Eval vm_compute in ("<<<M4525>>>" ++ check (runes_of_ascii "packet Inner {
+    u8 a,
 }
 
-")).
-Eval vm_compute in ("<<<M1055>>>" ++ check (runes_of_ascii "packet packetx { /// triple
-@rightPad ('0' ) @tag( 007)Logon Pad ,  }
-")).
-Eval vm_compute in ("<<<M2875>>>" ++ check (runes_of_ascii "packet A {
-  match k as n {
-    [1, ""bb"", 007] : B,
-    2 : C
-  },
+root packet P {
+    Inner ref_obj,
+    u8 x,
 }")).
-Eval vm_compute in ("<<<M539>>>" ++ check (runes_of_ascii "root
-packet
-// a // b
-// " ++ [128512]%N ++ runes_of_ascii " emoji
-Z9_ // a // b
-{ // " ++ [128512]%N ++ runes_of_ascii " emoji
-}
+Eval vm_compute in ("<<<M4616>>>" ++ check (runes_of_ascii "root packet P {
+    u16 a,
+    u32 Sum @calculatedFrom(""CR\
+    C32""),
+}")).
+Eval vm_compute in ("<<<M692>>>" ++ check (runes_of_ascii "options {
+T
+= false // a // b
+;
+    tag =
+    char[ 0 ]
+    ;
+    }
 ")).
-Eval vm_compute in ("<<<M2293>>>" ++ check (runes_of_ascii "options
-{ } options { BodyLength= u16 Header= f64 ; u128 =
-   ")).
-Eval vm_compute in ("<<<M22>>>" ++ check (runes_of_ascii "options
-    // a // b
-    {
-float	= char[ 4294967296 ] ; }
+Eval vm_compute in ("<<<M3251>>>" ++ check (runes_of_ascii "// top
+root // c0a
+  // c0b
+packet pack // c2a
+  // c2b
+{ // c3
+} ")).
+Eval vm_compute in ("<<<M1235>>>" ++ check (runes_of_ascii "options	{ falsey // " ++ [27880; 37322]%N ++ runes_of_ascii "
+=
+""\" ++ [233]%N ++ runes_of_ascii """	; lengthOf
+=
+0	;
+    // c
+    }
 ")).
-Eval vm_compute in ("<<<M2816>>>" ++ check (runes_of_ascii "zchar[ f64 char string int32 as false char[ char @rightPad")).
-Eval vm_compute in ("<<<M4401>>>" ++ check (runes_of_ascii "root packet P {
-    repeat string ss,
-    repeat u16 ns,
-}")).
-Eval vm_compute in ("<<<M1180>>>" ++ check (runes_of_ascii "packet
-    Header
-{
-i32 float, } // `tick` ""quote"" 'q'")).
-Eval vm_compute in ("<<<M1215>>>" ++ check (runes_of_ascii "root packet calculatedFrom { char[] trueish `
-` ,}
-")).
-Eval vm_compute in ("<<<M3745>>>" ++ check (runes_of_ascii "packet o {
-    stringy @calculatedFrom(""a	b""),
-}")).
-Eval vm_compute in ("<<<M85>>>" ++ check (runes_of_ascii "
-MetaData f32a { char[ 42
-    ] zchar
-, //x
-}")).
-Eval vm_compute in ("<<<M620>>>" ++ check (runes_of_ascii "  options { u8x =/// triple
-zchar[ 00 ] ; }")).
-Eval vm_compute in ("<<<M2626>>>" ++ check (runes_of_ascii "packet A { @leftPad('0' '0') char[2] x, }")).
-Eval vm_compute in ("<<<M3201>>>" ++ check (runes_of_ascii "root packet u128 { chars `it's` , // c
-}")).
-Eval vm_compute in ("<<<M4330>>>" ++ check (runes_of_ascii "  packet A
-{ u8 x`d" ++ [12]%N ++ runes_of_ascii "`
-    , // c" ++ [12]%N ++ runes_of_ascii "
-  }")).
-Eval vm_compute in ("<<<M4560>>>" ++ check (runes_of_ascii "
-packet	A
-
-    { }  
-      // c" ++ [160]%N ++ runes_of_ascii "
-")).
-Eval vm_compute in ("<<<M2245>>>" ++ check (runes_of_ascii "options
-{ } options { BodyLength=")).
-Eval vm_compute in ("<<<M2834>>>" ++ check (runes_of_ascii "dxT`3-=WNaxe4?ugHL<=^O4.Z~pd=^ii}")).
-Eval vm_compute in ("<<<M2625>>>" ++ check (runes_of_ascii "packet A { @leftPad('0' u8 x, }")).
-Eval vm_compute in ("<<<M3107>>>" ++ check (runes_of_ascii "packet A {
- u8 x `d" ++ [8239]%N ++ runes_of_ascii "`, // c" ++ [8239]%N ++ runes_of_ascii "
-}")).
-Eval vm_compute in ("<<<M2822>>>" ++ check (runes_of_ascii "sa;6G`'h:_2TsaQbH%GtGhb$f\i""")).
-Eval vm_compute in ("<<<M2190>>>" ++ check (runes_of_ascii "options{
-_x
-= true
-} optio")).
-Eval vm_compute in ("<<<M3257>>>" ++ check (runes_of_ascii "root packet
+Eval vm_compute in ("<<<M2797>>>" ++ check (runes_of_ascii "char[ '\x00' uint16 @lengthOf( i16 zchar[ MetaData u32 repeat")).
+Eval vm_compute in ("<<<M190>>>" ++ check (runes_of_ascii "MetaData zchar
+    {  i32 Z9_ `say ""hi""` ,
+    } // a // b")).
+Eval vm_compute in ("<<<M3384>>>" ++ check (runes_of_ascii "packet x { @rightPad ( ) repeat roots Logon `doc`
 // c
-pack { }")).
-Eval vm_compute in ("<<<M2593>>>" ++ check (runes_of_ascii "packet A { x @tag(1), }")).
-Eval vm_compute in ("<<<M3770>>>" ++ check (runes_of_ascii "packet BodyLength {
+, }")).
+Eval vm_compute in ("<<<M300>>>" ++ check (runes_of_ascii "
+MetaData trueish // c
+{  string	trueish `it's`	,
 }")).
-Eval vm_compute in ("<<<M1073>>>" ++ check (runes_of_ascii "packet msg_type {}
-")).
-Eval vm_compute in ("<<<M4264>>>" ++ check (runes_of_ascii "  options
-	{
-    } ")).
-Eval vm_compute in ("<<<M3105>>>" ++ check (runes_of_ascii "packet A {
+Eval vm_compute in ("<<<M650>>>" ++ check (runes_of_ascii "packet
+    u128 {
+repeat string
+As`say ""hi""`, } 	 ")).
+Eval vm_compute in ("<<<M3715>>>" ++ check (runes_of_ascii "MetaData crc {
+    uint8x float,
 }
-// c" ++ [8239]%N)).
-Eval vm_compute in ("<<<M2656>>>" ++ check (runes_of_ascii "options { a = 1 }")).
+// @lengthOf(")).
+Eval vm_compute in ("<<<M4547>>>" ++ check (runes_of_ascii "packet  Logon  {
+    string u `two words` , }
+")).
+Eval vm_compute in ("<<<M2562>>>" ++ check (runes_of_ascii "packet A { repeat match k as n { 1 : B }, }")).
+Eval vm_compute in ("<<<M3188>>>" ++ check (runes_of_ascii "
+// c
+root packet u128 { chars `it's` , }")).
+Eval vm_compute in ("<<<M4024>>>" ++ check (runes_of_ascii "options {
+    leftPad = """ ++ [28040; 24687]%N ++ runes_of_ascii """
+}// " ++ [128512]%N ++ runes_of_ascii " emoji")).
+Eval vm_compute in ("<<<M2583>>>" ++ check (runes_of_ascii "packet A { zchar[3] x @lengthOf(y), }")).
+Eval vm_compute in ("<<<M244>>>" ++ check (runes_of_ascii "
+packet/// triple
+packetx {
+} // " ++ [27880; 37322]%N)).
+Eval vm_compute in ("<<<M2621>>>" ++ check (runes_of_ascii "packet A { @tag(1) @tag(2) u8 x, }")).
+Eval vm_compute in ("<<<M1316>>>" ++ check (runes_of_ascii "packet As
+{stringy i8i8
+,} // c")).
+Eval vm_compute in ("<<<M3805>>>" ++ check (runes_of_ascii "options
+
+    {falsey
+	=false}")).
+Eval vm_compute in ("<<<M3142>>>" ++ check (runes_of_ascii "packet A {
+ u8 x `d" ++ [6158]%N ++ runes_of_ascii "`, // c" ++ [6158]%N ++ runes_of_ascii "
+}")).
+Eval vm_compute in ("<<<M4128>>>" ++ check (runes_of_ascii "//x
+options {
+    o = ' ';
+}")).
+Eval vm_compute in ("<<<M2447>>>" ++ check (runes_of_ascii "int8 int16 int32 int64 int")).
+Eval vm_compute in ("<<<M3258>>>" ++ check (runes_of_ascii "root packet pack // c
+{ }")).
+Eval vm_compute in ("<<<M1288>>>" ++ check (runes_of_ascii "packet
+falsey
+    { }
+")).
+Eval vm_compute in ("<<<M2648>>>" ++ check (runes_of_ascii "MetaData M { x y z, }")).
+Eval vm_compute in ("<<<M4375>>>" ++ check (runes_of_ascii "root packet u128 {
+}")).
+Eval vm_compute in ("<<<M3474>>>" ++ check (runes_of_ascii "MetaData o // c
+{ }")).
+Eval vm_compute in ("<<<M3100>>>" ++ check (runes_of_ascii "packet A {
+}
+// c" ++ [8233]%N)).
+Eval vm_compute in ("<<<M2647>>>" ++ check (runes_of_ascii "MetaData M { x, }")).
 Eval vm_compute in ("<<<M2641>>>" ++ check (runes_of_ascii "root options { }")).
-Eval vm_compute in ("<<<M416>>>" ++ check (runes_of_ascii "
-options { }
+Eval vm_compute in ("<<<M4510>>>" ++ check (runes_of_ascii "
+
+  /// triple")).
+Eval vm_compute in ("<<<M779>>>" ++ check (runes_of_ascii "options { }")).
+Eval vm_compute in ("<<<M2457>>>" ++ check (runes_of_ascii "optionss")).
+Eval vm_compute in ("<<<M2425>>>" ++ check (runes_of_ascii "char[]")).
+Eval vm_compute in ("<<<M2461>>>" ++ check (runes_of_ascii "roots")).
+Eval vm_compute in ("<<<M908>>>" ++ check (runes_of_ascii "//x
 ")).
-Eval vm_compute in ("<<<M2093>>>" ++ check (runes_of_ascii "options{
-_x")).
-Eval vm_compute in ("<<<M1864>>>" ++ check (runes_of_ascii "MetaData")).
-Eval vm_compute in ("<<<M2779>>>" ++ check (runes_of_ascii "3" ++ [65533; 3]%N ++ runes_of_ascii "4" ++ [65533]%N ++ runes_of_ascii "*M")).
-Eval vm_compute in ("<<<M2430>>>" ++ check (runes_of_ascii "chars")).
-Eval vm_compute in ("<<<M3119>>>" ++ check (runes_of_ascii "// c" ++ [12]%N)).
-Eval vm_compute in ("<<<M2719>>>" ++ check (runes_of_ascii "D-{a")).
-Eval vm_compute in ("<<<M2552>>>" ++ check (runes_of_ascii "a" ++ [8232]%N ++ runes_of_ascii "b")).
-Eval vm_compute in ("<<<M14>>>" ++ check (runes_of_ascii "
+Eval vm_compute in ("<<<M2454>>>" ++ check (runes_of_ascii "asx")).
+Eval vm_compute in ("<<<M247>>>" ++ check (runes_of_ascii "
+
 ")).
+Eval vm_compute in ("<<<M2554>>>" ++ check ([233]%N)).
